@@ -1,5 +1,6 @@
 import CppUModel.Spec.Runner
 import CppUModel.Proofs.ListLemmas
+set_option linter.unusedSimpArgs false
 /-!
 Helper lemmas for the C01 theorems: the operational runner model (`Model/Runner.lean`) is
 brought into a closed form, phase by phase, test by test, repetition by repetition.
@@ -40,6 +41,19 @@ namespace Runner
     endedOf (e :: l) = (Ev.ended? e).toList ++ endedOf l := by
   cases h : Ev.ended? e <;> simp [endedOf, h]
 
+@[simp] theorem plainToksOf_nil : plainToksOf [] = [] := rfl
+@[simp] theorem plainToksOf_append (a b : List Ev) : plainToksOf (a ++ b) = plainToksOf a ++ plainToksOf b := by
+  simp [plainToksOf, List.filterMap_append]
+@[simp] theorem plainToksOf_cons (e : Ev) (l : List Ev) :
+    plainToksOf (e :: l) = (Ev.tok? e).toList ++ plainToksOf l := by
+  cases h : Ev.tok? e <;> simp [plainToksOf, h]
+@[simp] theorem clocksOf_nil : clocksOf [] = [] := rfl
+@[simp] theorem clocksOf_append (a b : List Ev) : clocksOf (a ++ b) = clocksOf a ++ clocksOf b := by
+  simp [clocksOf, List.filterMap_append]
+@[simp] theorem clocksOf_cons (e : Ev) (l : List Ev) :
+    clocksOf (e :: l) = (Ev.clock? e).toList ++ clocksOf l := by
+  cases h : Ev.clock? e <;> simp [clocksOf, h]
+
 /-! ## one phase -/
 
 /-- the failing checks among the executed statements (exceptions are recorded by the catch clauses) -/
@@ -57,6 +71,7 @@ def exitOf (exc : Bool) : List Stmt → Exit
   | .failCpp _ _ :: _ => if exc then .exc .failed else .longjmp
   | .failC _ _ :: _ => .longjmp
   | .exitTest :: _ => if exc then .exc .failed else .longjmp
+  | .exitTestC :: _ => .longjmp
   | .throwStd :: rest => if exc then .exc .std else exitOf exc rest
   | .throwOther :: rest => if exc then .exc .other else exitOf exc rest
   | .mark _ :: rest => exitOf exc rest
@@ -73,6 +88,7 @@ def excRecs (cfg : Cfg) (t : Test) : Exit → List FailRec
 @[simp] theorem term_failCpp (exc : Bool) (l : Loc) (m : String) : (Stmt.failCpp l m).terminates exc = true := rfl
 @[simp] theorem term_failC (exc : Bool) (l : Loc) (m : String) : (Stmt.failC l m).terminates exc = true := rfl
 @[simp] theorem term_exitTest (exc : Bool) : Stmt.exitTest.terminates exc = true := rfl
+@[simp] theorem term_exitTestC (exc : Bool) : Stmt.exitTestC.terminates exc = true := rfl
 @[simp] theorem term_throwStd (exc : Bool) : Stmt.throwStd.terminates exc = exc := rfl
 @[simp] theorem term_throwOther (exc : Bool) : Stmt.throwOther.terminates exc = exc := rfl
 
@@ -87,6 +103,8 @@ def excRecs (cfg : Cfg) (t : Test) : Exit → List FailRec
     executed exc (.failC l m :: rest) = [.failC l m] := by simp [executed, Stmt.terminates]
 @[simp] theorem executed_exitTest (exc : Bool) (rest : List Stmt) :
     executed exc (.exitTest :: rest) = [.exitTest] := by simp [executed, Stmt.terminates]
+@[simp] theorem executed_exitTestC (exc : Bool) (rest : List Stmt) :
+    executed exc (.exitTestC :: rest) = [.exitTestC] := by simp [executed, Stmt.terminates]
 @[simp] theorem executed_throwStd_exc (rest : List Stmt) :
     executed true (.throwStd :: rest) = [.throwStd] := by simp [executed, Stmt.terminates]
 @[simp] theorem executed_throwStd_noexc (rest : List Stmt) :
@@ -115,6 +133,14 @@ theorem runStmts_enters (cfg : Cfg) (t : Test) (ph : Phase) (d : Int) :
     have ih := runStmts_enters cfg t ph d rest
     cases hexc : cfg.exceptions <;>
     cases s <;> simp [runStmts, PhaseOut.cons, Ev.enter?, Ev.summary?, Ev.ended?, ih, hexc]
+
+theorem runStmts_plain (cfg : Cfg) (t : Test) (ph : Phase) (d : Int) :
+    ∀ (p : List Stmt) (res : Result) (hf : Bool), plainToksOf (runStmts cfg t ph d res hf p).evs = []
+  | [], res, hf => by simp [runStmts]
+  | s :: rest, res, hf => by
+    have ih := runStmts_plain cfg t ph d rest
+    cases hexc : cfg.exceptions <;>
+    cases s <;> simp [runStmts, PhaseOut.cons, Ev.tok?, ih, hexc]
 
 theorem runStmts_failures (cfg : Cfg) (t : Test) (ph : Phase) (d : Int) :
     ∀ (p : List Stmt) (res : Result) (hf : Bool),
@@ -203,7 +229,53 @@ theorem setJmp_phase (cfg : Cfg) (t : Test) (ph : Phase) (st : TSt) (h : inBuf s
   | longjmp => simp [h]
   | exc k => simp
 
+/-! ## very verbose strings carry no structured event -/
+
+@[simp] theorem failuresOf_vv (cfg : Cfg) (s : String) : failuresOf (vv cfg s) = [] := by
+  unfold vv; split <;> simp [Ev.failure?]
+@[simp] theorem marksIn_vv (cfg : Cfg) (s : String) : marksIn (vv cfg s) = [] := by
+  unfold vv; split <;> simp [Ev.mark?]
+@[simp] theorem entersOf_vv (cfg : Cfg) (s : String) : entersOf (vv cfg s) = [] := by
+  unfold vv; split <;> simp [Ev.enter?]
+@[simp] theorem summariesOf_vv (cfg : Cfg) (s : String) : summariesOf (vv cfg s) = [] := by
+  unfold vv; split <;> simp [Ev.summary?]
+@[simp] theorem endedOf_vv (cfg : Cfg) (s : String) : endedOf (vv cfg s) = [] := by
+  unfold vv; split <;> simp [Ev.ended?]
+@[simp] theorem failuresOf_vvU (cfg : Cfg) (s : String) : failuresOf (vvU cfg s) = [] := by
+  unfold vvU; split <;> simp [Ev.failure?]
+@[simp] theorem marksIn_vvU (cfg : Cfg) (s : String) : marksIn (vvU cfg s) = [] := by
+  unfold vvU; split <;> simp [Ev.mark?]
+@[simp] theorem entersOf_vvU (cfg : Cfg) (s : String) : entersOf (vvU cfg s) = [] := by
+  unfold vvU; split <;> simp [Ev.enter?]
+@[simp] theorem summariesOf_vvU (cfg : Cfg) (s : String) : summariesOf (vvU cfg s) = [] := by
+  unfold vvU; split <;> simp [Ev.summary?]
+@[simp] theorem endedOf_vvU (cfg : Cfg) (s : String) : endedOf (vvU cfg s) = [] := by
+  unfold vvU; split <;> simp [Ev.ended?]
+
+/-- the "after" print of a phase: skipped when an exception leaves the SetJmp call -/
+def vvTail (cfg : Cfg) (ph : Phase) : Exit → List Ev
+  | .exc _ => []
+  | _ => vvU cfg (vvAfter ph)
+
+@[simp] theorem failuresOf_vvTail (cfg : Cfg) (ph : Phase) (e : Exit) : failuresOf (vvTail cfg ph e) = [] := by
+  unfold vvTail; split <;> simp
+@[simp] theorem marksIn_vvTail (cfg : Cfg) (ph : Phase) (e : Exit) : marksIn (vvTail cfg ph e) = [] := by
+  unfold vvTail; split <;> simp
+@[simp] theorem entersOf_vvTail (cfg : Cfg) (ph : Phase) (e : Exit) : entersOf (vvTail cfg ph e) = [] := by
+  unfold vvTail; split <;> simp
+@[simp] theorem summariesOf_vvTail (cfg : Cfg) (ph : Phase) (e : Exit) : summariesOf (vvTail cfg ph e) = [] := by
+  unfold vvTail; split <;> simp
+@[simp] theorem endedOf_vvTail (cfg : Cfg) (ph : Phase) (e : Exit) : endedOf (vvTail cfg ph e) = [] := by
+  unfold vvTail; split <;> simp
+
 /-! ## Utest::run in closed form -/
+
+/-- rethrow mode does not matter for this way of leaving a phase -/
+def QuietExit (cfg : Cfg) (e : Exit) : Prop := cfg.rethrow = false ∨ (e ≠ .exc .std ∧ e ≠ .exc .other)
+
+/-- no phase of the test lets a std / foreign exception out, or rethrow mode is off -/
+def QuietTest (cfg : Cfg) (t : Test) : Prop :=
+  cfg.rethrow = false ∨ ∀ ph, exitOf cfg.exceptions (stmtsOf t ph) ≠ .exc .std ∧ exitOf cfg.exceptions (stmtsOf t ph) ≠ .exc .other
 
 /-- what the catch clauses do to the state (index already restored) -/
 def caught (st : TSt) : Exit → TSt
@@ -214,7 +286,8 @@ def caught (st : TSt) : Exit → TSt
 /-- one phase with its `try`/`catch`: state after it, everything it printed -/
 def phaseStep (cfg : Cfg) (t : Test) (ph : Phase) (st : TSt) : Acc :=
   ⟨caught (stAfter cfg t ph st) (phaseOut cfg t ph st).exit,
-   phaseEvs cfg t ph st ++ (excRecs cfg t (phaseOut cfg t ph st).exit).map Ev.failure⟩
+   vvU cfg (vvBefore ph) ++ (phaseEvs cfg t ph st ++ (excRecs cfg t (phaseOut cfg t ph st).exit).map Ev.failure)
+     ++ vvTail cfg ph (phaseOut cfg t ph st).exit⟩
 
 @[simp] theorem caught_depth (st : TSt) (e : Exit) : (caught st e).depth = st.depth := by
   unfold caught; split <;> simp [shellAddFailure]
@@ -225,20 +298,44 @@ def phaseStep (cfg : Cfg) (t : Test) (ph : Phase) (st : TSt) : Acc :=
 @[simp] theorem phaseStep_current (cfg : Cfg) (t : Test) (ph : Phase) (st : TSt) :
     (phaseStep cfg t ph st).st.current = st.current := by simp [phaseStep, stAfter]
 
+theorem phaseOut_exit (cfg : Cfg) (t : Test) (ph : Phase) (st : TSt) :
+    (phaseOut cfg t ph st).exit = exitOf cfg.exceptions (stmtsOf t ph) := by
+  simp only [phaseOut, runStmts_exit]
+
+theorem quietExit_of_test {cfg : Cfg} {t : Test} (hq : QuietTest cfg t) (ph : Phase) (st : TSt) :
+    QuietExit cfg (phaseOut cfg t ph st).exit := by
+  rw [phaseOut_exit]
+  rcases hq with h | h
+  · exact Or.inl h
+  · exact Or.inr (h ph)
+
 theorem try_phase (cfg : Cfg) (t : Test) (ph : Phase) (st : TSt) (before : List Ev)
-    (hr : cfg.rethrow = false) (h : inBuf st.depth = true) :
+    (hq : QuietExit cfg (phaseOut cfg t ph st).exit) (h : inBuf st.depth = true) :
     (match setJmp st (phaseFn cfg t ph) with
-      | .error f => (.error f : Except Fault Acc)
-      | .ok j => afterTry cfg t j before)
+      | .error f => (.error f : Except Stop Acc)
+      | .ok j => afterTry cfg t j (before ++ vvU cfg (vvBefore ph)) (vvU cfg (vvAfter ph)))
       = .ok ⟨(phaseStep cfg t ph st).st, before ++ (phaseStep cfg t ph st).evs⟩ := by
   rw [setJmp_phase cfg t ph st h]
   simp only [phaseStep]
   cases hx : (phaseOut cfg t ph st).exit with
-  | normal => simp [afterTry, caught, excRecs]
-  | longjmp => simp [afterTry, caught, excRecs]
+  | normal => simp [afterTry, caught, excRecs, vvTail]
+  | longjmp => simp [afterTry, caught, excRecs, vvTail]
   | exc k =>
-    cases k <;>
-      simp [afterTry, catchClauses, caught, excRecs, hr, restoreJumpBuffer, shellAddFailure, TSt.dec, stAfter]
+    rw [hx] at hq
+    cases k with
+    | failed => simp [afterTry, catchClauses, caught, excRecs, vvTail, restoreJumpBuffer, TSt.dec, stAfter]
+    | std =>
+      have hr : cfg.rethrow = false := by
+        rcases hq with h | h
+        · exact h
+        · exact absurd rfl h.1
+      simp [afterTry, catchClauses, caught, excRecs, vvTail, hr, restoreJumpBuffer, shellAddFailure, TSt.dec, stAfter]
+    | other =>
+      have hr : cfg.rethrow = false := by
+        rcases hq with h | h
+        · exact h
+        · exact absurd rfl h.2
+      simp [afterTry, catchClauses, caught, excRecs, vvTail, hr, restoreJumpBuffer, shellAddFailure, TSt.dec, stAfter]
 
 theorem exitOf_noexc (p : List Stmt) (k : ExcKind) : exitOf false p ≠ .exc k := by
   induction p with
@@ -249,28 +346,21 @@ theorem phaseOut_exit_noexc (cfg : Cfg) (t : Test) (ph : Phase) (st : TSt) (k : 
     (hx : cfg.exceptions = false) : (phaseOut cfg t ph st).exit ≠ .exc k := by
   simp only [phaseOut, runStmts_exit, hx]; exact exitOf_noexc _ k
 
+theorem vvU_noexc (cfg : Cfg) (s : String) (hx : cfg.exceptions = false) : vvU cfg s = [] := by
+  simp [vvU, hx]
+
 theorem noexc_phase (cfg : Cfg) (t : Test) (ph : Phase) (st : TSt) (before : List Ev)
     (hx : cfg.exceptions = false) (h : inBuf st.depth = true) :
     (match setJmp st (phaseFn cfg t ph) with
-      | .error f => (.error f : Except Fault Acc)
+      | .error f => (.error f : Except Stop Acc)
       | .ok j => noEsc j before)
       = .ok ⟨(phaseStep cfg t ph st).st, before ++ (phaseStep cfg t ph st).evs⟩ := by
   rw [setJmp_phase cfg t ph st h]
   simp only [phaseStep]
   cases hex : (phaseOut cfg t ph st).exit with
-  | normal => simp [noEsc, caught, excRecs]
-  | longjmp => simp [noEsc, caught, excRecs]
+  | normal => simp [noEsc, caught, excRecs, vvTail, vvU_noexc cfg _ hx]
+  | longjmp => simp [noEsc, caught, excRecs, vvTail, vvU_noexc cfg _ hx]
   | exc k => exact absurd hex (phaseOut_exit_noexc cfg t ph st k hx)
-
-theorem phaseStep_of_normal (cfg : Cfg) (t : Test) (ph : Phase) (st : TSt)
-    (hx : (phaseOut cfg t ph st).exit = .normal) :
-    phaseStep cfg t ph st = ⟨stAfter cfg t ph st, phaseEvs cfg t ph st⟩ := by
-  simp [phaseStep, hx, caught, excRecs]
-
-theorem phaseStep_of_longjmp (cfg : Cfg) (t : Test) (ph : Phase) (st : TSt)
-    (hx : (phaseOut cfg t ph st).exit = .longjmp) :
-    phaseStep cfg t ph st = ⟨stAfter cfg t ph st, phaseEvs cfg t ph st⟩ := by
-  simp [phaseStep, hx, caught, excRecs]
 
 /-- state and events after setup and (if setup returned normally) body -/
 def afterBody (cfg : Cfg) (t : Test) (st : TSt) : Acc :=
@@ -290,52 +380,79 @@ def utestClosed (cfg : Cfg) (t : Test) (st : TSt) : Acc :=
    (afterBody cfg t st).evs ++ (phaseStep cfg t .teardown (afterBody cfg t st).st).evs⟩
 
 theorem tryBlock1_closed (cfg : Cfg) (t : Test) (st : TSt)
-    (hr : cfg.rethrow = false) (h : inBuf st.depth = true) :
+    (hq : QuietTest cfg t) (h : inBuf st.depth = true) :
     tryBlock1 cfg t st = .ok (afterBody cfg t st) := by
+  have hs := try_phase cfg t .setup st [] (quietExit_of_test hq .setup st) h
+  simp only [List.nil_append] at hs
   unfold tryBlock1 afterBody
-  rw [setJmp_phase cfg t .setup st h]
-  cases hx : (phaseOut cfg t .setup st).exit with
-  | normal =>
-    rw [phaseStep_of_normal cfg t .setup st hx]
-    simp only [bodyIfSetupReturned, if_true]
-    exact try_phase cfg t .body (stAfter cfg t .setup st) (phaseEvs cfg t .setup st) hr (by simpa [stAfter] using h)
-  | longjmp =>
-    rw [phaseStep_of_longjmp cfg t .setup st hx]
-    simp [bodyIfSetupReturned]
-  | exc k =>
-    cases k <;>
-      simp [bodyIfSetupReturned, catchClauses, phaseStep, caught, excRecs, hx, hr, restoreJumpBuffer,
-        shellAddFailure, TSt.dec, stAfter]
+  cases hj : setJmp st (phaseFn cfg t .setup) with
+  | error f => rw [hj] at hs; simp at hs
+  | ok j1 =>
+    rw [hj] at hs
+    simp only [] at hs ⊢
+    rw [hs]
+    simp only []
+    have hjp := setJmp_phase cfg t .setup st h
+    rw [hj] at hjp
+    cases hx : (phaseOut cfg t .setup st).exit with
+    | normal =>
+      rw [hx] at hjp
+      have hj1 : j1 = ⟨stAfter cfg t .setup st, phaseEvs cfg t .setup st, true, none⟩ := Except.ok.inj hjp
+      subst hj1
+      simp only [bodyIfSetupReturned, if_true]
+      exact try_phase cfg t .body (phaseStep cfg t .setup st).st (phaseStep cfg t .setup st).evs
+        (quietExit_of_test hq .body _) (by simpa using h)
+    | longjmp =>
+      rw [hx] at hjp
+      have hj1 : j1 = ⟨stAfter cfg t .setup st, phaseEvs cfg t .setup st, false, none⟩ := Except.ok.inj hjp
+      subst hj1
+      simp [bodyIfSetupReturned]
+    | exc k =>
+      rw [hx] at hjp
+      have hj1 : j1 = ⟨{ stAfter cfg t .setup st with depth := st.depth + 1 }, phaseEvs cfg t .setup st, false, some k⟩ :=
+        Except.ok.inj hjp
+      subst hj1
+      simp
 
 theorem tryBlock2_closed (cfg : Cfg) (t : Test) (a : Acc)
-    (hr : cfg.rethrow = false) (h : inBuf a.st.depth = true) :
+    (hq : QuietTest cfg t) (h : inBuf a.st.depth = true) :
     tryBlock2 cfg t a = .ok ⟨(phaseStep cfg t .teardown a.st).st, a.evs ++ (phaseStep cfg t .teardown a.st).evs⟩ := by
   unfold tryBlock2
-  exact try_phase cfg t .teardown a.st a.evs hr h
+  exact try_phase cfg t .teardown a.st a.evs (quietExit_of_test hq .teardown _) h
 
 theorem utestRunExc_closed (cfg : Cfg) (t : Test) (st : TSt)
-    (hr : cfg.rethrow = false) (h : inBuf st.depth = true) :
+    (hq : QuietTest cfg t) (h : inBuf st.depth = true) :
     utestRunExc cfg t st = .ok (utestClosed cfg t st) := by
   unfold utestRunExc
-  rw [tryBlock1_closed cfg t st hr h]
+  rw [tryBlock1_closed cfg t st hq h]
   simp only []
-  rw [tryBlock2_closed cfg t _ hr (by simpa using h)]
+  rw [tryBlock2_closed cfg t _ hq (by simpa using h)]
   rfl
+
+theorem phaseStep_of_normal (cfg : Cfg) (t : Test) (ph : Phase) (st : TSt)
+    (hn : cfg.exceptions = false) (hx : (phaseOut cfg t ph st).exit = .normal) :
+    phaseStep cfg t ph st = ⟨stAfter cfg t ph st, phaseEvs cfg t ph st⟩ := by
+  simp [phaseStep, hx, caught, excRecs, vvTail, vvU_noexc cfg _ hn]
+
+theorem phaseStep_of_longjmp (cfg : Cfg) (t : Test) (ph : Phase) (st : TSt)
+    (hn : cfg.exceptions = false) (hx : (phaseOut cfg t ph st).exit = .longjmp) :
+    phaseStep cfg t ph st = ⟨stAfter cfg t ph st, phaseEvs cfg t ph st⟩ := by
+  simp [phaseStep, hx, caught, excRecs, vvTail, vvU_noexc cfg _ hn]
 
 theorem bodyNoExc_closed (cfg : Cfg) (t : Test) (st : TSt)
     (hx : cfg.exceptions = false) (h : inBuf st.depth = true) :
     (match setJmp st (phaseFn cfg t .setup) with
-      | .error f => (.error f : Except Fault Acc)
+      | .error f => (.error f : Except Stop Acc)
       | .ok j1 => bodyNoExc cfg t j1) = .ok (afterBody cfg t st) := by
   unfold afterBody
   rw [setJmp_phase cfg t .setup st h]
   cases hex : (phaseOut cfg t .setup st).exit with
   | normal =>
-    rw [phaseStep_of_normal cfg t .setup st hex]
+    rw [phaseStep_of_normal cfg t .setup st hx hex]
     simp only [bodyNoExc, if_true]
     exact noexc_phase cfg t .body (stAfter cfg t .setup st) (phaseEvs cfg t .setup st) hx (by simpa [stAfter] using h)
   | longjmp =>
-    rw [phaseStep_of_longjmp cfg t .setup st hex]
+    rw [phaseStep_of_longjmp cfg t .setup st hx hex]
     simp [bodyNoExc]
   | exc k => exact absurd hex (phaseOut_exit_noexc cfg t .setup st k hx)
 
@@ -352,11 +469,11 @@ theorem utestRunNoExc_closed (cfg : Cfg) (t : Test) (st : TSt)
     exact noexc_phase cfg t .teardown _ _ hx (by simpa using h)
 
 theorem utestRun_closed (cfg : Cfg) (t : Test) (st : TSt)
-    (hr : cfg.rethrow = false) (h : inBuf st.depth = true) :
+    (hq : QuietTest cfg t) (h : inBuf st.depth = true) :
     utestRun cfg t st = .ok (utestClosed cfg t st) := by
   unfold utestRun
   cases hx : cfg.exceptions with
-  | true => simp [utestRunExc_closed cfg t st hr h]
+  | true => simp [utestRunExc_closed cfg t st hq h]
   | false => simp [utestRunNoExc_closed cfg t st hx h]
 
 /-! ## what one test does, read off the closed form -/
@@ -495,24 +612,24 @@ theorem reportErrs_spec (cfg : Cfg) (t : Test) : ∀ (errs : List PErr) (st : TS
 
 /-- an event list that contains failure records and plugin notifications only -/
 def OnlyFailures (evs : List Ev) : Prop :=
-  marksIn evs = [] ∧ entersOf evs = [] ∧ summariesOf evs = [] ∧ endedOf evs = []
+  marksIn evs = [] ∧ entersOf evs = [] ∧ summariesOf evs = [] ∧ endedOf evs = [] ∧ plainToksOf evs = []
 
 theorem onlyFailures_map (l : List FailRec) : OnlyFailures (l.map Ev.failure) := by
   induction l with
   | nil => simp [OnlyFailures]
   | cons a l ih =>
-    obtain ⟨h1, h2, h3, h4⟩ := ih
-    simp [OnlyFailures, Ev.mark?, Ev.enter?, Ev.summary?, Ev.ended?, h1, h2, h3, h4]
+    obtain ⟨h1, h2, h3, h4, h5⟩ := ih
+    simp [OnlyFailures, Ev.mark?, Ev.enter?, Ev.summary?, Ev.ended?, Ev.tok?, h1, h2, h3, h4, h5]
 
 theorem onlyFailures_append {a b : List Ev} (ha : OnlyFailures a) (hb : OnlyFailures b) : OnlyFailures (a ++ b) := by
-  obtain ⟨a1, a2, a3, a4⟩ := ha
-  obtain ⟨b1, b2, b3, b4⟩ := hb
-  simp [OnlyFailures, a1, a2, a3, a4, b1, b2, b3, b4]
+  obtain ⟨a1, a2, a3, a4, a5⟩ := ha
+  obtain ⟨b1, b2, b3, b4, b5⟩ := hb
+  simp [OnlyFailures, a1, a2, a3, a4, a5, b1, b2, b3, b4, b5]
 
 theorem onlyFailures_plug (name : String) (post : Bool) (d : Int) {a : List Ev} (ha : OnlyFailures a) :
     OnlyFailures (.plug name post d :: a) := by
-  obtain ⟨a1, a2, a3, a4⟩ := ha
-  simp [OnlyFailures, Ev.mark?, Ev.enter?, Ev.summary?, Ev.ended?, a1, a2, a3, a4]
+  obtain ⟨a1, a2, a3, a4, a5⟩ := ha
+  simp [OnlyFailures, Ev.mark?, Ev.enter?, Ev.summary?, Ev.ended?, Ev.tok?, a1, a2, a3, a4, a5]
 
 theorem runAllPre_spec (cfg : Cfg) (t : Test) : ∀ (ps : List Plugin) (st : TSt),
     (runAllPre cfg t ps st).st = { st with res := st.res.bump 0 (preFailures cfg ps t).length } ∧
@@ -577,6 +694,109 @@ theorem runAllPost_spec (cfg : Cfg) (t : Test) : ∀ (ps : List Plugin) (st : TS
     (runAllPost cfg t ps st).st.res = st.res.bump 0 (postFailures cfg ps t).length := by
   rw [(runAllPost_spec cfg t ps st).1]
 
+
+/-! ## plain strings of one test -/
+
+theorem plain_vv (cfg : Cfg) (s : String) (hv : cfg.veryVerbose = false) : plainToksOf (vv cfg s) = [] := by
+  simp [vv, hv]
+theorem plain_vvU (cfg : Cfg) (s : String) (hv : cfg.veryVerbose = false) : plainToksOf (vvU cfg s) = [] := by
+  simp [vvU, hv]
+theorem plain_vvTail (cfg : Cfg) (ph : Phase) (e : Exit) (hv : cfg.veryVerbose = false) :
+    plainToksOf (vvTail cfg ph e) = [] := by
+  unfold vvTail; split <;> simp [plain_vvU cfg _ hv]
+
+theorem plain_map_failure (l : List FailRec) : plainToksOf (l.map Ev.failure) = [] := by
+  induction l with
+  | nil => rfl
+  | cons a l ih => simp [Ev.tok?, ih]
+
+/-! ## no plain string of the runner can be mistaken for a marker -/
+
+theorem repr_ne_of_nondigit (n : Nat) (s : String) (c : Char) (hc : c ∈ s.toList) (hd : c.isDigit = false) :
+    n.repr ≠ s := by
+  intro h
+  have hm : c ∈ Nat.toDigits 10 n := by rw [← Nat.toList_repr, h]; exact hc
+  have := Nat.isDigit_of_mem_toDigits (by decide) (by decide) hm
+  rw [hd] at this; exact absurd this (by decide)
+
+theorem repr_ne_ranNothing (n : Nat) : n.repr ≠ "ran nothing, " :=
+  repr_ne_of_nondigit n _ 'r' (by decide) (by decide)
+theorem repr_ne_marker (n : Nat) : n.repr ≠ failureMarker :=
+  repr_ne_of_nondigit n _ 'F' (by decide) (by decide)
+theorem repr_ne_ok (n : Nat) : n.repr ≠ "OK (" :=
+  repr_ne_of_nondigit n _ 'O' (by decide) (by decide)
+theorem repr_ne_errors (n : Nat) : n.repr ≠ "Errors (" :=
+  repr_ne_of_nondigit n _ 'E' (by decide) (by decide)
+theorem repr_not_marker (n : Nat) : toString n ∉ markers := by
+  simp [markers, repr_ne_ok, repr_ne_errors, (repr_ne_marker n : n.repr ≠ " Failure in ")]
+  exact repr_ne_marker n
+
+
+
+/-- no plain console string of the event list is one of the strings the reader keys on -/
+def SafePlain (evs : List Ev) : Prop := ∀ s ∈ plainToksOf evs, s ∉ markers
+
+@[simp] theorem safePlain_nil : SafePlain [] := by simp [SafePlain]
+@[simp] theorem safePlain_append (a b : List Ev) : SafePlain (a ++ b) ↔ SafePlain a ∧ SafePlain b := by
+  simp only [SafePlain, plainToksOf_append, List.mem_append]
+  constructor
+  · intro h; exact ⟨fun s hs => h s (Or.inl hs), fun s hs => h s (Or.inr hs)⟩
+  · rintro ⟨h1, h2⟩ s (hs | hs)
+    · exact h1 s hs
+    · exact h2 s hs
+theorem safePlain_cons (e : Ev) (l : List Ev) :
+    SafePlain (e :: l) ↔ (∀ s, Ev.tok? e = some s → s ∉ markers) ∧ SafePlain l := by
+  cases h : Ev.tok? e <;> simp [SafePlain, h]
+theorem safePlain_of_nil {evs : List Ev} (h : plainToksOf evs = []) : SafePlain evs := by
+  simp [SafePlain, h]
+
+theorem endsParen (a : String) (m : String) (hm : m.toList.getLast? ≠ some ')') : a ++ ")" ≠ m := by
+  intro h
+  apply hm
+  rw [← h]
+  simp [String.toList_append]
+
+theorem formattedName_not_marker (cfg : Cfg) (t : Test) : formattedName cfg t ∉ markers := by
+  unfold formattedName markers
+  simp only [List.mem_cons, List.mem_nil_iff, or_false, not_or]
+  exact ⟨endsParen _ _ (by decide), endsParen _ _ (by decide), endsParen _ _ (by decide)⟩
+
+theorem safePlain_vv (cfg : Cfg) (s : String) (hs : s ∉ markers) : SafePlain (vv cfg s) := by
+  unfold vv; split
+  · simp [safePlain_cons, Ev.tok?, hs]
+  · simp
+theorem safePlain_vvU (cfg : Cfg) (s : String) (hs : s ∉ markers) : SafePlain (vvU cfg s) := by
+  unfold vvU; split
+  · simp [safePlain_cons, Ev.tok?, hs]
+  · simp
+theorem vvBefore_safe (ph : Phase) : vvBefore ph ∉ markers := by cases ph <;> simp [vvBefore, markers]
+theorem vvAfter_safe (ph : Phase) : vvAfter ph ∉ markers := by cases ph <;> simp [vvAfter, markers]
+theorem safePlain_vvTail (cfg : Cfg) (ph : Phase) (e : Exit) : SafePlain (vvTail cfg ph e) := by
+  unfold vvTail; split
+  · simp
+  · exact safePlain_vvU cfg _ (vvAfter_safe ph)
+
+theorem phaseStep_safe (cfg : Cfg) (t : Test) (ph : Phase) (st : TSt) : SafePlain (phaseStep cfg t ph st).evs := by
+  simp only [phaseStep, safePlain_append]
+  refine ⟨⟨safePlain_vvU cfg _ (vvBefore_safe ph), ?_, ?_⟩, safePlain_vvTail cfg ph _⟩
+  · apply safePlain_of_nil
+    simp [phaseEvs, phaseOut, runStmts_plain, Ev.tok?]
+  · exact safePlain_of_nil (plain_map_failure _)
+
+theorem utestClosed_safe (cfg : Cfg) (t : Test) (st : TSt) : SafePlain (utestClosed cfg t st).evs := by
+  simp only [utestClosed, afterBody]
+  split <;> simp [phaseStep_safe]
+
+theorem phaseStep_plain (cfg : Cfg) (t : Test) (ph : Phase) (st : TSt) (hv : cfg.veryVerbose = false) :
+    plainToksOf (phaseStep cfg t ph st).evs = [] := by
+  simp [phaseStep, phaseEvs, phaseOut, plain_vvU cfg _ hv, plain_vvTail cfg _ _ hv, runStmts_plain, Ev.tok?,
+    plain_map_failure]
+
+theorem utestClosed_plain (cfg : Cfg) (t : Test) (st : TSt) (hv : cfg.veryVerbose = false) :
+    plainToksOf (utestClosed cfg t st).evs = [] := by
+  simp only [utestClosed, afterBody]
+  split <;> simp [phaseStep_plain cfg t _ _ hv]
+
 /-! ## UtestShell::runOneTest -/
 
 /-- everything the theorems need to know about one `runOneTest` call -/
@@ -591,14 +811,16 @@ structure TestOutcome (cfg : Cfg) (plugins : List Plugin) (t : Test) (st : TSt) 
   enters : entersOf j.evs = phasesRun cfg t
   summaries : summariesOf j.evs = []
   ended : endedOf j.evs = []
+  plain : cfg.veryVerbose = false → plainToksOf j.evs = []
+  safe : SafePlain j.evs
 
 theorem runOneTest_closed (cfg : Cfg) (plugins : List Plugin) (t : Test) (st : TSt)
-    (hr : cfg.rethrow = false) (h0 : inBuf st.depth = true) (h1 : inBuf (st.depth + 1) = true) :
+    (hq : QuietTest cfg t) (h0 : inBuf st.depth = true) (h1 : inBuf (st.depth + 1) = true) :
     ∃ j, runOneTest cfg plugins t st = .ok j ∧ TestOutcome cfg plugins t st j := by
   unfold runOneTest setJmp
   simp only [h0, Bool.not_true, Bool.false_eq_true, if_false, runOneTestInCurrentProcess]
-  rw [utestRun_closed cfg t _ hr (by simpa using h1)]
-  simp only [setJmpAfter, afterRun, TSt.dec]
+  rw [utestRun_closed cfg t _ hq (by simpa using h1)]
+  simp only [setJmpAfter, afterRun, beforeRun, TSt.dec]
   refine ⟨_, rfl, ?_⟩
   constructor
   · rfl
@@ -610,27 +832,74 @@ theorem runOneTest_closed (cfg : Cfg) (plugins : List Plugin) (t : Test) (st : T
   · simp [(runAllPre_spec cfg t plugins _).2.2.1, (runAllPost_spec cfg t plugins _).2.2.1, utestClosed_marks]
   · simp [(runAllPre_spec cfg t plugins _).2.2.2.1, (runAllPost_spec cfg t plugins _).2.2.2.1, utestClosed_enters]
   · simp [(runAllPre_spec cfg t plugins _).2.2.2.2.1, (runAllPost_spec cfg t plugins _).2.2.2.2.1, (utestClosed_other cfg t _).1]
-  · simp [(runAllPre_spec cfg t plugins _).2.2.2.2.2, (runAllPost_spec cfg t plugins _).2.2.2.2.2, (utestClosed_other cfg t _).2]
+  · simp [(runAllPre_spec cfg t plugins _).2.2.2.2.2.1, (runAllPost_spec cfg t plugins _).2.2.2.2.2.1, (utestClosed_other cfg t _).2]
+  · intro hv
+    simp [(runAllPre_spec cfg t plugins _).2.2.2.2.2.2, (runAllPost_spec cfg t plugins _).2.2.2.2.2.2,
+      utestClosed_plain cfg t _ hv, plain_vv cfg _ hv]
+  · simp only [safePlain_append]
+    repeat' (apply And.intro)
+    all_goals first
+      | exact safePlain_vv cfg _ (by simp [markers])
+      | exact utestClosed_safe cfg t _
+      | exact safePlain_of_nil (runAllPre_spec cfg t plugins _).2.2.2.2.2.2
+      | exact safePlain_of_nil (runAllPost_spec cfg t plugins _).2.2.2.2.2.2
 
 /-! ## the loop over the registry -/
 
-/-- an event list of plain console strings -/
-def OnlyToks (evs : List Ev) : Prop :=
+/-- an event list without structured events (plain strings, clock readings) -/
+def Inert (evs : List Ev) : Prop :=
   failuresOf evs = [] ∧ marksIn evs = [] ∧ entersOf evs = [] ∧ summariesOf evs = [] ∧ endedOf evs = []
 
-theorem testStartedToks_only (cfg : Cfg) (t : Test) : OnlyToks (testStartedToks cfg t) := by
-  unfold testStartedToks OnlyToks
+theorem testStartedToks_inert (cfg : Cfg) (t : Test) : Inert (testStartedToks cfg t) := by
+  unfold testStartedToks Inert
   split <;> simp [Ev.failure?, Ev.mark?, Ev.enter?, Ev.summary?, Ev.ended?]
 
-theorem testEndedToks_only (cfg : Cfg) (ind : String) (dots : Nat) : OnlyToks (testEndedToks cfg ind dots) := by
-  unfold testEndedToks OnlyToks
+theorem testEndedToks_inert (cfg : Cfg) (ind : String) (dots time : Nat) : Inert (testEndedToks cfg ind dots time) := by
+  unfold testEndedToks Inert
   split
   · simp [Ev.failure?, Ev.mark?, Ev.enter?, Ev.summary?, Ev.ended?]
   · split <;> simp [Ev.failure?, Ev.mark?, Ev.enter?, Ev.summary?, Ev.ended?]
 
-theorem testRunToks_only (a b : Nat) : OnlyToks (testRunToks a b) := by
-  unfold testRunToks OnlyToks
+theorem testRunToks_inert (a b : Nat) : Inert (testRunToks a b) := by
+  unfold testRunToks Inert
   split <;> simp [Ev.failure?, Ev.mark?, Ev.enter?, Ev.summary?, Ev.ended?]
+
+theorem groupStarted_inert (cfg : Cfg) (s : LSt) : Inert (groupStarted cfg s).evs := by
+  unfold groupStarted Inert
+  split <;> simp [Ev.failure?, Ev.mark?, Ev.enter?, Ev.summary?, Ev.ended?]
+
+theorem groupEnded_inert (cfg : Cfg) (last : Bool) (s : LSt) : Inert (groupEnded cfg last s).evs := by
+  unfold groupEnded Inert
+  split <;> simp [Ev.failure?, Ev.mark?, Ev.enter?, Ev.summary?, Ev.ended?]
+
+theorem testStartedToks_safe (cfg : Cfg) (t : Test) : SafePlain (testStartedToks cfg t) := by
+  unfold testStartedToks; split
+  · simp [safePlain_cons, Ev.tok?, formattedName_not_marker]
+  · simp
+
+theorem testEndedToks_safe (cfg : Cfg) (ind : String) (dots time : Nat) (hi : ind ∉ markers) :
+    SafePlain (testEndedToks cfg ind dots time) := by
+  unfold testEndedToks
+  split
+  · simp only [safePlain_cons, Ev.tok?, Option.some.injEq, forall_eq', safePlain_nil, and_true]
+    exact ⟨by simp [markers], repr_not_marker time, by simp [markers]⟩
+  · split
+    · simp only [safePlain_cons, Ev.tok?, Option.some.injEq, forall_eq', safePlain_nil, and_true]
+      exact ⟨hi, by simp [markers]⟩
+    · simp only [safePlain_cons, Ev.tok?, Option.some.injEq, forall_eq', safePlain_nil, and_true]
+      exact hi
+
+theorem testRunToks_safe (a b : Nat) : SafePlain (testRunToks a b) := by
+  unfold testRunToks; split
+  · simp only [safePlain_cons, Ev.tok?, Option.some.injEq, forall_eq', safePlain_nil, and_true]
+    exact ⟨by simp [markers], repr_not_marker a, by simp [markers], repr_not_marker b, by simp [markers]⟩
+  · simp
+
+theorem groupStarted_safe (cfg : Cfg) (s : LSt) : SafePlain (groupStarted cfg s).evs := by
+  unfold groupStarted; split <;> simp [safePlain_cons, Ev.tok?]
+
+theorem groupEnded_safe (cfg : Cfg) (last : Bool) (s : LSt) : SafePlain (groupEnded cfg last s).evs := by
+  unfold groupEnded; split <;> simp [safePlain_cons, Ev.tok?]
 
 /-- the per-test failed flag the property demands: the test ran and one of its phases failed -/
 def failedFlag (cfg : Cfg) (t : Test) : Bool := willRun cfg t && !(testPhaseFailures cfg t).isEmpty
@@ -651,38 +920,100 @@ structure EntryOutcome (cfg : Cfg) (plugins : List Plugin) (ts : List Test) (s :
   enters : entersOf a.evs = (running cfg ts).flatMap (phasesRun cfg)
   summaries : summariesOf a.evs = []
   ended : endedOf a.evs = (selected cfg ts).map (fun t => (s.depth, s.current, failedFlag cfg t))
+  dots : cfg.anyVerbose = false → a.st.out.dotCount = s.out.dotCount + (selected cfg ts).length
+  plain : cfg.anyVerbose = false →
+    plainToksOf a.evs = progressToks ((selected cfg ts).map (indicatorOf cfg)) s.out.dotCount
+  safe : SafePlain a.evs
 
-theorem runEntry_closed (cfg : Cfg) (plugins : List Plugin) (t : Test) (s : LSt)
-    (hr : cfg.rethrow = false) (h0 : inBuf s.depth = true) (h1 : inBuf (s.depth + 1) = true) :
-    ∃ a, runEntry cfg plugins t s = .ok a ∧ EntryOutcome cfg plugins [t] s a := by
-  unfold runEntry
+theorem anyVerbose_false {cfg : Cfg} (h : cfg.anyVerbose = false) : cfg.verbose = false ∧ cfg.veryVerbose = false := by
+  simpa [Cfg.anyVerbose] using h
+
+theorem runFiltered_closed (cfg : Cfg) (plugins : List Plugin) (t : Test) (s : LSt)
+    (hq : QuietTest cfg t) (h0 : inBuf s.depth = true) (h1 : inBuf (s.depth + 1) = true) :
+    ∃ a, runFiltered cfg plugins t s = .ok a ∧ EntryOutcome cfg plugins [t] s a := by
+  unfold runFiltered
   cases hs : shouldRun cfg t with
   | false =>
     refine ⟨_, rfl, ?_⟩
-    constructor <;> simp [addTest, hs, running, selected]
+    constructor <;> simp [addTest, hs, running, selected, progressToks]
   | true =>
     simp only [if_true, runSelected]
     cases hw : willRun cfg t with
     | false =>
       simp only [Bool.false_eq_true, if_false]
       refine ⟨_, rfl, ?_⟩
-      obtain ⟨a1, a2, a3, a4, a5⟩ := testStartedToks_only cfg t
-      obtain ⟨b1, b2, b3, b4, b5⟩ := testEndedToks_only cfg "!" s.out.dotCount
-      constructor <;>
+      obtain ⟨a1, a2, a3, a4, a5⟩ := testStartedToks_inert cfg t
+      obtain ⟨b1, b2, b3, b4, b5⟩ := testEndedToks_inert cfg "!" s.out.dotCount
+        (elapsed (readClock cfg (s.tick + 1)) (readClock cfg s.tick))
+      constructor
+      case safe =>
+        simp only [safePlain_append]
+        refine ⟨⟨testStartedToks_safe cfg t, ?_⟩, testEndedToks_safe cfg "!" _ _ (by simp [markers])⟩
+        simp [safePlain_cons, Ev.tok?]
+      any_goals
         simp [addTest, hs, hw, running, selected, failedFlag, a1, a2, a3, a4, a5, b1, b2, b3, b4, b5,
           Ev.failure?, Ev.mark?, Ev.enter?, Ev.summary?, Ev.ended?]
+      · intro hv; simp [dotsAfter, hv]
+      · intro hv
+        simp [testStartedToks, testEndedToks, hv, Ev.tok?, progressToks, indicatorOf, hw]
+        split <;> simp [Ev.tok?]
     | true =>
       simp only [if_true]
-      obtain ⟨j, hj, ho⟩ := runOneTest_closed cfg plugins t ⟨s.res.countTest, false, s.depth, s.current⟩ hr h0 h1
+      obtain ⟨j, hj, ho⟩ := runOneTest_closed cfg plugins t ⟨s.res.countTest, false, s.depth, s.current⟩ hq h0 h1
       rw [hj]
       simp only [ho.esc]
       refine ⟨_, rfl, ?_⟩
-      obtain ⟨a1, a2, a3, a4, a5⟩ := testStartedToks_only cfg t
-      obtain ⟨b1, b2, b3, b4, b5⟩ := testEndedToks_only cfg "." s.out.dotCount
-      constructor <;>
+      obtain ⟨a1, a2, a3, a4, a5⟩ := testStartedToks_inert cfg t
+      obtain ⟨b1, b2, b3, b4, b5⟩ := testEndedToks_inert cfg "." s.out.dotCount
+        (elapsed (readClock cfg (s.tick + 1)) (readClock cfg s.tick))
+      constructor
+      case safe =>
+        simp only [safePlain_append]
+        refine ⟨⟨⟨⟨testStartedToks_safe cfg t, ?_⟩, ho.safe⟩, ?_⟩, testEndedToks_safe cfg "." _ _ (by simp [markers])⟩
+        · simp [safePlain_cons, Ev.tok?]
+        · simp [safePlain_cons, Ev.tok?]
+      any_goals
         simp [addTest, hs, hw, running, selected, failedFlag, a1, a2, a3, a4, a5, b1, b2, b3, b4, b5,
           Ev.failure?, Ev.mark?, Ev.enter?, Ev.summary?, Ev.ended?,
           ho.depth, ho.current, ho.res, ho.hasFailed, ho.failures, ho.marks, ho.enters, ho.summaries, ho.ended]
+      · intro hv; simp [dotsAfter, hv]
+      · intro hv
+        have hp := ho.plain (anyVerbose_false hv).2
+        simp [testStartedToks, testEndedToks, hv, Ev.tok?, progressToks, indicatorOf, hw, hp]
+        split <;> simp [Ev.tok?]
+
+theorem runEntry_closed (cfg : Cfg) (plugins : List Plugin) (t : Test) (last : Bool) (s : LSt)
+    (hq : QuietTest cfg t) (h0 : inBuf s.depth = true) (h1 : inBuf (s.depth + 1) = true) :
+    ∃ a, runEntry cfg plugins t last s = .ok a ∧ EntryOutcome cfg plugins [t] s a := by
+  have hgd : (groupStarted cfg s).st.depth = s.depth := by unfold groupStarted; split <;> rfl
+  have hgc : (groupStarted cfg s).st.current = s.current := by unfold groupStarted; split <;> rfl
+  have hgr : (groupStarted cfg s).st.res = s.res := by unfold groupStarted; split <;> rfl
+  have hgo : (groupStarted cfg s).st.out = s.out := by unfold groupStarted; split <;> rfl
+  have hgp : plainToksOf (groupStarted cfg s).evs = [] := by unfold groupStarted; split <;> simp [Ev.tok?]
+  obtain ⟨a, ha, oa⟩ := runFiltered_closed cfg plugins t (groupStarted cfg s).st hq (by rw [hgd]; exact h0) (by rw [hgd]; exact h1)
+  have hed : (groupEnded cfg last a.st).st.depth = a.st.depth := by unfold groupEnded; split <;> rfl
+  have hec : (groupEnded cfg last a.st).st.current = a.st.current := by unfold groupEnded; split <;> rfl
+  have her : (groupEnded cfg last a.st).st.res = a.st.res := by unfold groupEnded; split <;> rfl
+  have heo : (groupEnded cfg last a.st).st.out = a.st.out := by unfold groupEnded; split <;> rfl
+  have hep : plainToksOf (groupEnded cfg last a.st).evs = [] := by unfold groupEnded; split <;> simp [Ev.tok?]
+  obtain ⟨g1, g2, g3, g4, g5⟩ := groupStarted_inert cfg s
+  obtain ⟨e1, e2, e3, e4, e5⟩ := groupEnded_inert cfg last a.st
+  unfold runEntry
+  rw [ha]
+  refine ⟨_, rfl, ?_⟩
+  constructor
+  · simp [hed, oa.depth, hgd]
+  · simp [hec, oa.current, hgc]
+  · simp [her, oa.res, hgr]
+  · simp [g1, e1, oa.failures]
+  · simp [g2, e2, oa.marks]
+  · simp [g3, e3, oa.enters]
+  · simp [g4, e4, oa.summaries]
+  · simp [g5, e5, oa.ended, hgd, hgc]
+  · intro hv; simp [heo, oa.dots hv, hgo]
+  · intro hv; simp [hgp, hep, oa.plain hv, hgo]
+  · simp only [safePlain_append]
+    exact ⟨⟨groupStarted_safe cfg s, oa.safe⟩, groupEnded_safe cfg last a.st⟩
 
 theorem running_cons (cfg : Cfg) (t : Test) (ts : List Test) :
     running cfg (t :: ts) = running cfg [t] ++ running cfg ts := by
@@ -694,15 +1025,22 @@ theorem selected_cons (cfg : Cfg) (t : Test) (ts : List Test) :
   simp only [selected, List.filter_cons]
   cases shouldRun cfg t <;> simp
 
-theorem runTests_closed (cfg : Cfg) (plugins : List Plugin) (hr : cfg.rethrow = false) :
-    ∀ (ts : List Test) (s : LSt), inBuf s.depth = true → inBuf (s.depth + 1) = true →
+theorem progressToks_append (a b : List String) (d : Nat) :
+    progressToks (a ++ b) d = progressToks a d ++ progressToks b (d + a.length) := by
+  induction a generalizing d with
+  | nil => simp [progressToks]
+  | cons x a ih => simp [progressToks, ih, Nat.add_assoc, Nat.add_comm 1]
+
+theorem runTests_closed (cfg : Cfg) (plugins : List Plugin) :
+    ∀ (ts : List Test) (s : LSt), (∀ t ∈ ts, QuietTest cfg t) → inBuf s.depth = true → inBuf (s.depth + 1) = true →
       ∃ a, runTests cfg plugins ts s = .ok a ∧ EntryOutcome cfg plugins ts s a
-  | [], s, _, _ => by
+  | [], s, _, _, _ => by
     refine ⟨_, rfl, ?_⟩
-    constructor <;> simp [running, selected]
-  | t :: rest, s, h0, h1 => by
-    obtain ⟨a, ha, oa⟩ := runEntry_closed cfg plugins t s hr h0 h1
-    obtain ⟨b, hb, ob⟩ := runTests_closed cfg plugins hr rest a.st (by rw [oa.depth]; exact h0) (by rw [oa.depth]; exact h1)
+    constructor <;> simp [running, selected, progressToks]
+  | t :: rest, s, hq, h0, h1 => by
+    obtain ⟨a, ha, oa⟩ := runEntry_closed cfg plugins t (endOfGroup t rest) s (hq t (by simp)) h0 h1
+    obtain ⟨b, hb, ob⟩ := runTests_closed cfg plugins rest a.st (fun x hx => hq x (by simp [hx]))
+      (by rw [oa.depth]; exact h0) (by rw [oa.depth]; exact h1)
     unfold runTests
     rw [ha]; simp only []; rw [hb]
     refine ⟨_, rfl, ?_⟩
@@ -715,6 +1053,11 @@ theorem runTests_closed (cfg : Cfg) (plugins : List Plugin) (hr : cfg.rethrow = 
     · rw [running_cons]; simp [oa.enters, ob.enters]
     · simp [oa.summaries, ob.summaries]
     · rw [selected_cons]; simp [oa.ended, ob.ended, oa.depth, oa.current]
+    · intro hv; rw [selected_cons]; simp [ob.dots hv, oa.dots hv, Nat.add_assoc]
+    · intro hv
+      rw [selected_cons, List.map_append, progressToks_append]
+      simp [oa.plain hv, ob.plain hv, oa.dots hv]
+    · simp only [safePlain_append]; exact ⟨oa.safe, ob.safe⟩
 
 theorem selected_length_le (cfg : Cfg) (ts : List Test) : (selected cfg ts).length ≤ ts.length :=
   List.length_filter_le _ _
@@ -763,6 +1106,58 @@ def flattenRep {α} (k : Nat) (l : List α) : List α := (List.replicate k l).fl
 theorem flattenRep_succ {α} (k : Nat) (l : List α) : flattenRep (k + 1) l = l ++ flattenRep k l := by
   simp [flattenRep, List.replicate_succ]
 
+/-- one `TestRegistry::runAllTests(tr)` with fresh counters -/
+structure RegistryOutcome (cfg : Cfg) (plugins : List Plugin) (ts : List Test) (s : LSt) (a : LAcc) : Prop where
+  depth : a.st.depth = s.depth
+  current : a.st.current = s.current
+  res : a.st.res = expectedCounts cfg plugins ts
+  dots : a.st.out.dotCount = 0
+  failures : failuresOf a.evs = expectedFailures cfg plugins ts
+  marks : marksIn a.evs = (running cfg ts).flatMap (testMarks cfg)
+  enters : entersOf a.evs = (running cfg ts).flatMap (phasesRun cfg)
+  ended : endedOf a.evs = (selected cfg ts).map (fun t => (s.depth, s.current, failedFlag cfg t))
+  /-- exactly one summary, with the true counts; its time is the last clock reading of the
+      repetition minus the first one (unsigned) -/
+  summary : ∃ first last, (clocksOf a.evs).head? = some first ∧ (clocksOf a.evs).getLast? = some last ∧
+    summariesOf a.evs = [(expectedCounts cfg plugins ts, elapsed last first)]
+  plain : cfg.anyVerbose = false →
+    plainToksOf a.evs = progressToks ((selected cfg ts).map (indicatorOf cfg)) s.out.dotCount
+  safe : SafePlain a.evs
+
+theorem registryRunAll_closed (cfg : Cfg) (plugins : List Plugin) (ts : List Test) (s : LSt)
+    (hres : s.res = {}) (hq : ∀ t ∈ ts, QuietTest cfg t) (h0 : inBuf s.depth = true) (h1 : inBuf (s.depth + 1) = true) :
+    ∃ a, registryRunAll cfg plugins ts s = .ok a ∧ RegistryOutcome cfg plugins ts s a := by
+  unfold registryRunAll
+  obtain ⟨b, hb, ob⟩ := runTests_closed cfg plugins ts { s with tick := s.tick + 1, groupStart := true } hq h0 h1
+  rw [hb]
+  refine ⟨_, rfl, ?_⟩
+  have hr : b.st.res = expectedCounts cfg plugins ts := by
+    rw [ob.res]; simp only [hres]; exact foldl_addTest_fresh cfg plugins ts
+  constructor
+  · simp [ob.depth]
+  · simp [ob.current]
+  · simp [hr]
+  · rfl
+  · simp [ob.failures, expectedFailures, Ev.failure?]
+  · simp [ob.marks, Ev.mark?]
+  · simp [ob.enters, Ev.enter?]
+  · simp [ob.ended, Ev.ended?]
+  · refine ⟨readClock cfg s.tick, readClock cfg b.st.tick, ?_, ?_, ?_⟩
+    · simp [Ev.clock?]
+    · simp only [clocksOf_cons, clocksOf_append, Ev.clock?, Option.toList, List.singleton_append, clocksOf_nil,
+        List.append_nil]
+      rw [List.getLast?_append]
+      simp
+    · simp [ob.summaries, Ev.summary?, hr]
+  · intro hv; simp [ob.plain hv, Ev.tok?]
+  · have h1 : SafePlain [Ev.clock (readClock cfg b.st.tick),
+        Ev.summary b.st.res (elapsed (readClock cfg b.st.tick) (readClock cfg s.tick))] := by
+      simp [safePlain_cons, Ev.tok?]
+    have h2 : SafePlain (b.evs ++ [Ev.clock (readClock cfg b.st.tick),
+        Ev.summary b.st.res (elapsed (readClock cfg b.st.tick) (readClock cfg s.tick))]) :=
+      (safePlain_append _ _).mpr ⟨ob.safe, h1⟩
+    exact (safePlain_cons _ _).mpr ⟨by simp [Ev.tok?], h2⟩
+
 structure RepOutcome (cfg : Cfg) (plugins : List Plugin) (ts : List Test) (k : Nat) (s : RSt) (a : RAcc) : Prop where
   depth : a.st.depth = s.depth
   current : a.st.current = s.current
@@ -773,40 +1168,42 @@ structure RepOutcome (cfg : Cfg) (plugins : List Plugin) (ts : List Test) (k : N
   failures : failuresOf a.evs = flattenRep k (expectedFailures cfg plugins ts)
   marks : marksIn a.evs = flattenRep k ((running cfg ts).flatMap (testMarks cfg))
   enters : entersOf a.evs = flattenRep k ((running cfg ts).flatMap (phasesRun cfg))
-  summaries : summariesOf a.evs = List.replicate k (expectedCounts cfg plugins ts)
+  summaries : (summariesOf a.evs).map Prod.fst = List.replicate k (expectedCounts cfg plugins ts)
   ended : endedOf a.evs = flattenRep k ((selected cfg ts).map (fun t => (s.depth, s.current, failedFlag cfg t)))
+  safe : SafePlain a.evs
 
 theorem repetition_closed (cfg : Cfg) (plugins : List Plugin) (ts : List Test) (number total : Nat) (s : RSt)
-    (hr : cfg.rethrow = false) (h0 : inBuf s.depth = true) (h1 : inBuf (s.depth + 1) = true) :
+    (hq : ∀ t ∈ ts, QuietTest cfg t) (h0 : inBuf s.depth = true) (h1 : inBuf (s.depth + 1) = true) :
     ∃ a, repetition cfg plugins ts number total s = .ok a ∧ RepOutcome cfg plugins ts 1 s a := by
-  unfold repetition registryRunAll
-  obtain ⟨b, hb, ob⟩ := runTests_closed cfg plugins hr ts ⟨{}, s.depth, s.current, s.out⟩ h0 h1
+  unfold repetition
+  obtain ⟨b, hb, ob⟩ := registryRunAll_closed cfg plugins ts ⟨{}, s.depth, s.current, s.out, s.tick, true⟩ rfl hq h0 h1
   rw [hb]
   refine ⟨_, rfl, ?_⟩
-  obtain ⟨t1, t2, t3, t4, t5⟩ := testRunToks_only number total
-  have hres : b.st.res = expectedCounts cfg plugins ts := by rw [ob.res]; exact foldl_addTest_fresh cfg plugins ts
+  obtain ⟨t1, t2, t3, t4, t5⟩ := testRunToks_inert number total
+  obtain ⟨first, last, _, _, hsum⟩ := ob.summary
   constructor
   · simp [ob.depth]
   · simp [ob.current]
-  · simp [hres]
-  · simp [hres]
-  · simp only [hres]; split <;> simp
-  · simp [t1, ob.failures, expectedFailures, Ev.failure?]
-  · simp [t2, ob.marks, Ev.mark?]
-  · simp [t3, ob.enters, Ev.enter?]
-  · simp [t4, ob.summaries, Ev.summary?, hres]
-  · simp [t5, ob.ended, Ev.ended?]
+  · simp [ob.res]
+  · simp [ob.res]
+  · simp only [ob.res]; split <;> simp
+  · simp [t1, ob.failures]
+  · simp [t2, ob.marks]
+  · simp [t3, ob.enters]
+  · simp [t4, hsum]
+  · simp [t5, ob.ended]
+  · simp only [safePlain_append]; exact ⟨testRunToks_safe number total, ob.safe⟩
 
 theorem repeatLoop_closed (cfg : Cfg) (plugins : List Plugin) (ts : List Test) (total : Nat)
-    (hr : cfg.rethrow = false) :
+    (hq : ∀ t ∈ ts, QuietTest cfg t) :
     ∀ (k number : Nat) (s : RSt), inBuf s.depth = true → inBuf (s.depth + 1) = true →
       ∃ a, repeatLoop cfg plugins ts total k number s = .ok a ∧ RepOutcome cfg plugins ts k s a
   | 0, number, s, _, _ => by
     refine ⟨_, rfl, ?_⟩
     constructor <;> simp
   | k + 1, number, s, h0, h1 => by
-    obtain ⟨a, ha, oa⟩ := repetition_closed cfg plugins ts number total s hr h0 h1
-    obtain ⟨b, hb, ob⟩ := repeatLoop_closed cfg plugins ts total hr k (number + 1) a.st
+    obtain ⟨a, ha, oa⟩ := repetition_closed cfg plugins ts number total s hq h0 h1
+    obtain ⟨b, hb, ob⟩ := repeatLoop_closed cfg plugins ts total hq k (number + 1) a.st
       (by rw [oa.depth]; exact h0) (by rw [oa.depth]; exact h1)
     unfold repeatLoop
     rw [ha]; simp only []; rw [hb]
@@ -822,6 +1219,7 @@ theorem repeatLoop_closed (cfg : Cfg) (plugins : List Plugin) (ts : List Test) (
     · simp [ob.enters, oa.enters, flattenRep_succ]
     · simp [ob.summaries, oa.summaries, List.replicate_succ]
     · simp [ob.ended, oa.ended, flattenRep_succ, oa.depth, oa.current]
+    · simp only [safePlain_append]; exact ⟨oa.safe, ob.safe⟩
 
 structure RunOutcome (cfg : Cfg) (plugins : List Plugin) (ts : List Test) (n : Nat) (d : Int) (o : RunOut) : Prop where
   depth : o.depth = d
@@ -833,14 +1231,15 @@ structure RunOutcome (cfg : Cfg) (plugins : List Plugin) (ts : List Test) (n : N
   failures : failuresOf o.evs = flattenRep n (expectedFailures cfg plugins ts)
   marks : marksIn o.evs = flattenRep n ((running cfg ts).flatMap (testMarks cfg))
   enters : entersOf o.evs = flattenRep n ((running cfg ts).flatMap (phasesRun cfg))
-  summaries : summariesOf o.evs = List.replicate n (expectedCounts cfg plugins ts)
+  summaries : (summariesOf o.evs).map Prod.fst = List.replicate n (expectedCounts cfg plugins ts)
   ended : endedOf o.evs = flattenRep n ((selected cfg ts).map (fun t => (d, none, failedFlag cfg t)))
+  safe : SafePlain o.evs
 
 theorem runAllTests_closed (cfg : Cfg) (plugins : List Plugin) (ts : List Test) (n : Nat) (d : Int)
-    (hr : cfg.rethrow = false) (h0 : inBuf d = true) (h1 : inBuf (d + 1) = true) :
+    (hq : ∀ t ∈ ts, QuietTest cfg t) (h0 : inBuf d = true) (h1 : inBuf (d + 1) = true) :
     ∃ o, runAllTests cfg plugins ts n d = .ok o ∧ RunOutcome cfg plugins ts n d o := by
   unfold runAllTests
-  obtain ⟨a, ha, oa⟩ := repeatLoop_closed cfg plugins ts n hr n 1 ⟨d, none, {}, 0, 0⟩ h0 h1
+  obtain ⟨a, ha, oa⟩ := repeatLoop_closed cfg plugins ts n hq n 1 ⟨d, none, {}, 0, 0, 0⟩ h0 h1
   rw [ha]
   refine ⟨_, rfl, ?_⟩
   constructor
@@ -854,40 +1253,673 @@ theorem runAllTests_closed (cfg : Cfg) (plugins : List Plugin) (ts : List Test) 
   · simp [oa.enters, Ev.enter?]
   · simp [oa.summaries, Ev.summary?]
   · simp [oa.ended, Ev.ended?]
+  · rw [safePlain_append]
+    exact ⟨oa.safe, by simp [safePlain_cons, Ev.tok?]⟩
+
+
+/-! ## rethrow mode: the exception leaves the run -/
+
+theorem throwsOut_eq (exc : Bool) : ∀ (p : List Stmt),
+    throwsOut exc p = (match exitOf exc p with
+      | .exc .std => some .std
+      | .exc .other => some .other
+      | _ => none)
+  | [] => by simp [throwsOut, exitOf]
+  | s :: rest => by
+    have ih := throwsOut_eq exc rest
+    cases exc <;> cases s <;> simp [throwsOut, exitOf, ih]
+
+theorem exit_of_throwsOut {exc : Bool} {p : List Stmt} {k : ExcKind} (h : throwsOut exc p = some k) :
+    exitOf exc p = .exc k ∧ (k = .std ∨ k = .other) := by
+  rw [throwsOut_eq] at h
+  cases hx : exitOf exc p with
+  | normal => simp [hx] at h
+  | longjmp => simp [hx] at h
+  | exc j => cases j <;> simp [hx] at h <;> subst h <;> simp
+
+theorem quiet_of_not_throwsOut {cfg : Cfg} {p : List Stmt} (h : throwsOut cfg.exceptions p = none) :
+    QuietExit cfg (exitOf cfg.exceptions p) := by
+  rw [throwsOut_eq] at h
+  refine Or.inr ?_
+  cases hx : exitOf cfg.exceptions p with
+  | normal => simp
+  | longjmp => simp
+  | exc j => cases j <;> simp [hx] at h ⊢
+
+theorem bind_error {α β} {x : Except Stop α} {e : Stop} (h : x = .error e) (f : α → Except Stop β) :
+    (match x with
+      | .error s => (.error s : Except Stop β)
+      | .ok a => f a) = .error e := by
+  subst h; rfl
+
+/-- what has been observed of a phase when its exception leaves `Utest::run` -/
+def thrownEvs (cfg : Cfg) (t : Test) (ph : Phase) (st : TSt) : List Ev :=
+  vvU cfg (vvBefore ph) ++ (phaseEvs cfg t ph st ++ (excRecs cfg t (phaseOut cfg t ph st).exit).map Ev.failure)
+
+theorem try_phase_throws (cfg : Cfg) (t : Test) (ph : Phase) (st : TSt) (before : List Ev) (k : ExcKind)
+    (hr : cfg.rethrow = true) (hx : (phaseOut cfg t ph st).exit = .exc k) (hk : k = .std ∨ k = .other)
+    (h : inBuf st.depth = true) :
+    (match setJmp st (phaseFn cfg t ph) with
+      | .error f => (.error f : Except Stop Acc)
+      | .ok j => afterTry cfg t j (before ++ vvU cfg (vvBefore ph)) (vvU cfg (vvAfter ph)))
+      = .error (.propagated ⟨k, before ++ thrownEvs cfg t ph st, st.depth, st.current⟩) := by
+  rw [setJmp_phase cfg t ph st h]
+  simp only [thrownEvs, hx]
+  rcases hk with rfl | rfl <;>
+    simp [afterTry, catchClauses, excRecs, hr, restoreJumpBuffer, shellAddFailure, TSt.dec, stAfter]
+
+/-- the first try block when neither setup nor body lets a std / foreign exception out -/
+theorem tryBlock1_closed' (cfg : Cfg) (t : Test) (st : TSt)
+    (hs : QuietExit cfg (exitOf cfg.exceptions t.setup)) (hb : QuietExit cfg (exitOf cfg.exceptions t.body))
+    (h : inBuf st.depth = true) :
+    tryBlock1 cfg t st = .ok (afterBody cfg t st) := by
+  have hqs : QuietExit cfg (phaseOut cfg t .setup st).exit := by rw [phaseOut_exit]; exact hs
+  have hsx := try_phase cfg t .setup st [] hqs h
+  simp only [List.nil_append] at hsx
+  unfold tryBlock1 afterBody
+  cases hj : setJmp st (phaseFn cfg t .setup) with
+  | error f => rw [hj] at hsx; simp at hsx
+  | ok j1 =>
+    rw [hj] at hsx
+    simp only [] at hsx ⊢
+    rw [hsx]
+    simp only []
+    have hjp := setJmp_phase cfg t .setup st h
+    rw [hj] at hjp
+    cases hx : (phaseOut cfg t .setup st).exit with
+    | normal =>
+      rw [hx] at hjp
+      have hj1 : j1 = ⟨stAfter cfg t .setup st, phaseEvs cfg t .setup st, true, none⟩ := Except.ok.inj hjp
+      subst hj1
+      simp only [bodyIfSetupReturned, if_true]
+      exact try_phase cfg t .body (phaseStep cfg t .setup st).st (phaseStep cfg t .setup st).evs
+        (by rw [phaseOut_exit]; exact hb) (by simpa using h)
+    | longjmp =>
+      rw [hx] at hjp
+      have hj1 : j1 = ⟨stAfter cfg t .setup st, phaseEvs cfg t .setup st, false, none⟩ := Except.ok.inj hjp
+      subst hj1
+      simp [bodyIfSetupReturned]
+    | exc k =>
+      rw [hx] at hjp
+      have hj1 : j1 = ⟨{ stAfter cfg t .setup st with depth := st.depth + 1 }, phaseEvs cfg t .setup st, false, some k⟩ :=
+        Except.ok.inj hjp
+      subst hj1
+      simp
+
+/-- what the throwing test did before the exception left `Utest::run` -/
+structure ThrowOutcome (cfg : Cfg) (t : Test) (ph : Phase) (k : ExcKind) (st : TSt) (p : Propagated) : Prop where
+  kind : p.kind = k
+  depth : p.depth = st.depth
+  current : p.current = st.current
+  enters : entersOf p.evs = phasesUpTo cfg t ph
+  marks : marksIn p.evs = marksUpTo cfg t ph
+  failures : failuresOf p.evs = (phasesUpTo cfg t ph).flatMap (fun q => phaseFailures cfg t (stmtsOf t q))
+  summaries : summariesOf p.evs = []
+  ended : endedOf p.evs = []
+
+theorem thrownEvs_enters (cfg : Cfg) (t : Test) (ph : Phase) (st : TSt) :
+    entersOf (thrownEvs cfg t ph st) = [ph] := by
+  have h := phaseStep_enters cfg t ph st
+  simpa [phaseStep, thrownEvs] using h
+
+theorem thrownEvs_marks (cfg : Cfg) (t : Test) (ph : Phase) (st : TSt) :
+    marksIn (thrownEvs cfg t ph st) = (marksOf (executed cfg.exceptions (stmtsOf t ph))).map (fun n => (ph, n)) := by
+  have h := phaseStep_marks cfg t ph st
+  simpa [phaseStep, thrownEvs] using h
+
+theorem thrownEvs_failures (cfg : Cfg) (t : Test) (ph : Phase) (st : TSt) :
+    failuresOf (thrownEvs cfg t ph st) = phaseFailures cfg t (stmtsOf t ph) := by
+  have h := phaseStep_failures cfg t ph st
+  simpa [phaseStep, thrownEvs] using h
+
+theorem thrownEvs_other (cfg : Cfg) (t : Test) (ph : Phase) (st : TSt) :
+    summariesOf (thrownEvs cfg t ph st) = [] ∧ endedOf (thrownEvs cfg t ph st) = [] := by
+  have h := phaseStep_other cfg t ph st
+  simpa [phaseStep, thrownEvs] using h
+
+theorem completes_false_of_throws {exc : Bool} {p : List Stmt} {k : ExcKind} (h : throwsOut exc p = some k) :
+    completes exc p = false := by
+  have hx := (exit_of_throwsOut h).1
+  cases hc : completes exc p with
+  | false => rfl
+  | true => rw [(exitOf_normal_iff exc p).mpr hc] at hx; cases hx
+
+theorem utestRun_propagates (cfg : Cfg) (t : Test) (st : TSt) (ph : Phase) (k : ExcKind)
+    (hx : cfg.exceptions = true) (hr : cfg.rethrow = true) (hf : firstThrow cfg t = some (ph, k))
+    (h : inBuf st.depth = true) :
+    ∃ p, utestRun cfg t st = .error (.propagated p) ∧ ThrowOutcome cfg t ph k st p := by
+  unfold utestRun
+  simp only [hx, if_true]
+  unfold firstThrow phasesRun at hf
+  cases hs : throwsOut cfg.exceptions t.setup with
+  | some ks =>
+    -- the exception of setup leaves
+    have hc := completes_false_of_throws hs
+    simp [hs, stmtsOf] at hf
+    obtain ⟨rfl, rfl⟩ := hf
+    obtain ⟨he, hk⟩ := exit_of_throwsOut hs
+    have hpx : (phaseOut cfg t .setup st).exit = .exc ks := by rw [phaseOut_exit]; exact he
+    have ht := try_phase_throws cfg t .setup st [] ks hr hpx hk h
+    simp only [List.nil_append] at ht
+    unfold utestRunExc tryBlock1
+    cases hj : setJmp st (phaseFn cfg t .setup) with
+    | error f => rw [hj] at ht; simp only [] at ht ⊢; rw [ht]; exact ⟨_, rfl, by
+        constructor <;> simp [phasesUpTo, marksUpTo, phasesRun, hc, Phase.idx, thrownEvs_enters, thrownEvs_marks,
+          thrownEvs_failures, (thrownEvs_other cfg t .setup st).1, (thrownEvs_other cfg t .setup st).2]⟩
+    | ok j1 =>
+      rw [hj] at ht
+      simp only [] at ht ⊢
+      rw [ht]
+      exact ⟨_, rfl, by
+        constructor <;> simp [phasesUpTo, marksUpTo, phasesRun, hc, Phase.idx, thrownEvs_enters, thrownEvs_marks,
+          thrownEvs_failures, (thrownEvs_other cfg t .setup st).1, (thrownEvs_other cfg t .setup st).2]⟩
+  | none =>
+    have hqs := quiet_of_not_throwsOut hs
+    cases hc : completes cfg.exceptions t.setup with
+    | true =>
+      cases hb : throwsOut cfg.exceptions t.body with
+      | some kb =>
+        simp [hs, hb, hc, stmtsOf] at hf
+        obtain ⟨rfl, rfl⟩ := hf
+        obtain ⟨he, hk⟩ := exit_of_throwsOut hb
+        have hnorm : (phaseOut cfg t .setup st).exit = .normal := (setup_normal_iff cfg t st).mpr hc
+        have hpx : (phaseOut cfg t .body (phaseStep cfg t .setup st).st).exit = .exc kb := by rw [phaseOut_exit]; exact he
+        have ht := try_phase_throws cfg t .body (phaseStep cfg t .setup st).st (phaseStep cfg t .setup st).evs kb hr hpx hk
+          (by simpa using h)
+        have hsx := try_phase cfg t .setup st [] (by rw [phaseOut_exit]; exact hqs) h
+        simp only [List.nil_append] at hsx
+        have hjp := setJmp_phase cfg t .setup st h
+        unfold utestRunExc tryBlock1
+        cases hj : setJmp st (phaseFn cfg t .setup) with
+        | error f => rw [hj] at hsx; simp at hsx
+        | ok j1 =>
+          rw [hj] at hsx hjp
+          simp only [] at hsx ⊢
+          rw [hsx]
+          simp only []
+          rw [hnorm] at hjp
+          have hj1 : j1 = ⟨stAfter cfg t .setup st, phaseEvs cfg t .setup st, true, none⟩ := Except.ok.inj hjp
+          subst hj1
+          simp only [bodyIfSetupReturned, if_true]
+          have hgoal : ∀ (x : Except Stop Acc), x = .error (.propagated ⟨kb,
+                (phaseStep cfg t .setup st).evs ++ thrownEvs cfg t .body (phaseStep cfg t .setup st).st,
+                (phaseStep cfg t .setup st).st.depth, (phaseStep cfg t .setup st).st.current⟩) →
+              (match x with
+                | .error f => (.error f : Except Stop Acc)
+                | .ok a => tryBlock2 cfg t a) = .error (.propagated ⟨kb,
+                (phaseStep cfg t .setup st).evs ++ thrownEvs cfg t .body (phaseStep cfg t .setup st).st,
+                (phaseStep cfg t .setup st).st.depth, (phaseStep cfg t .setup st).st.current⟩) := by
+            intro x hxx; subst hxx; rfl
+          cases hj2 : setJmp (phaseStep cfg t .setup st).st (phaseFn cfg t .body) with
+          | error f =>
+            rw [hj2] at ht
+            simp only [] at ht ⊢
+            refine ⟨_, hgoal _ ht, ?_⟩
+            constructor
+            · rfl
+            · simp
+            · simp
+            · simp [phasesUpTo, phasesRun, hc, Phase.idx, thrownEvs_enters, phaseStep_enters]
+            · simp [marksUpTo, phasesUpTo, phasesRun, hc, Phase.idx, thrownEvs_marks, phaseStep_marks]
+            · simp [phasesUpTo, phasesRun, hc, Phase.idx, thrownEvs_failures, phaseStep_failures]
+            · simp [(thrownEvs_other cfg t .body _).1, (phaseStep_other cfg t .setup st).1]
+            · simp [(thrownEvs_other cfg t .body _).2, (phaseStep_other cfg t .setup st).2]
+          | ok j2 =>
+          rw [hj2] at ht
+          simp only [] at ht ⊢
+          refine ⟨_, hgoal _ ht, ?_⟩
+          constructor
+          · rfl
+          · simp
+          · simp
+          · simp [phasesUpTo, phasesRun, hc, Phase.idx, thrownEvs_enters, phaseStep_enters]
+          · simp [marksUpTo, phasesUpTo, phasesRun, hc, Phase.idx, thrownEvs_marks, phaseStep_marks]
+          · simp [phasesUpTo, phasesRun, hc, Phase.idx, thrownEvs_failures, phaseStep_failures]
+          · simp [(thrownEvs_other cfg t .body _).1, (phaseStep_other cfg t .setup st).1]
+          · simp [(thrownEvs_other cfg t .body _).2, (phaseStep_other cfg t .setup st).2]
+      | none =>
+        have hqb := quiet_of_not_throwsOut hb
+        cases htd : throwsOut cfg.exceptions t.teardown with
+        | none => simp [hs, hb, htd, hc, stmtsOf] at hf
+        | some kt =>
+          simp [hs, hb, htd, hc, stmtsOf] at hf
+          obtain ⟨rfl, rfl⟩ := hf
+          obtain ⟨he, hk⟩ := exit_of_throwsOut htd
+          unfold utestRunExc
+          rw [tryBlock1_closed' cfg t st hqs hqb h]
+          simp only [tryBlock2]
+          have hpx : (phaseOut cfg t .teardown (afterBody cfg t st).st).exit = .exc kt := by rw [phaseOut_exit]; exact he
+          refine ⟨_, try_phase_throws cfg t .teardown (afterBody cfg t st).st (afterBody cfg t st).evs kt hr hpx hk
+            (by simpa using h), ?_⟩
+          have hnorm : (phaseOut cfg t .setup st).exit = .normal := (setup_normal_iff cfg t st).mpr hc
+          constructor
+          · rfl
+          · simp
+          · simp
+          · simp [afterBody, hnorm, phasesUpTo, phasesRun, hc, Phase.idx, thrownEvs_enters, phaseStep_enters]
+          · simp [afterBody, hnorm, marksUpTo, phasesUpTo, phasesRun, hc, Phase.idx, thrownEvs_marks, phaseStep_marks]
+          · simp [afterBody, hnorm, phasesUpTo, phasesRun, hc, Phase.idx, thrownEvs_failures, phaseStep_failures]
+          · simp [afterBody, hnorm, (thrownEvs_other cfg t .teardown _).1, (phaseStep_other cfg t _ _).1]
+          · simp [afterBody, hnorm, (thrownEvs_other cfg t .teardown _).2, (phaseStep_other cfg t _ _).2]
+    | false =>
+      cases htd : throwsOut cfg.exceptions t.teardown with
+      | none => simp [hs, htd, hc, stmtsOf] at hf
+      | some kt =>
+        simp [hs, htd, hc, stmtsOf] at hf
+        obtain ⟨rfl, rfl⟩ := hf
+        obtain ⟨he, hk⟩ := exit_of_throwsOut htd
+        have hnn : (phaseOut cfg t .setup st).exit ≠ .normal := by
+          intro hn; rw [(setup_normal_iff cfg t st).mp hn] at hc; cases hc
+        -- the body does not run: its quietness is irrelevant; reuse the closed form with any body
+        have hab : tryBlock1 cfg t st = .ok (afterBody cfg t st) := by
+          have hsx := try_phase cfg t .setup st [] (by rw [phaseOut_exit]; exact hqs) h
+          simp only [List.nil_append] at hsx
+          have hjp := setJmp_phase cfg t .setup st h
+          unfold tryBlock1 afterBody
+          cases hj : setJmp st (phaseFn cfg t .setup) with
+          | error f => rw [hj] at hsx; simp at hsx
+          | ok j1 =>
+            rw [hj] at hsx hjp
+            simp only [] at hsx ⊢
+            rw [hsx]
+            simp only [hnn, if_false]
+            cases hx2 : (phaseOut cfg t .setup st).exit with
+            | normal => exact absurd hx2 hnn
+            | longjmp =>
+              rw [hx2] at hjp
+              have hj1 : j1 = ⟨stAfter cfg t .setup st, phaseEvs cfg t .setup st, false, none⟩ := Except.ok.inj hjp
+              subst hj1
+              simp [bodyIfSetupReturned]
+            | exc k2 =>
+              rw [hx2] at hjp
+              have hj1 : j1 = ⟨{ stAfter cfg t .setup st with depth := st.depth + 1 }, phaseEvs cfg t .setup st, false, some k2⟩ :=
+                Except.ok.inj hjp
+              subst hj1
+              simp
+        unfold utestRunExc
+        rw [hab]
+        simp only [tryBlock2]
+        have hpx : (phaseOut cfg t .teardown (afterBody cfg t st).st).exit = .exc kt := by rw [phaseOut_exit]; exact he
+        refine ⟨_, try_phase_throws cfg t .teardown (afterBody cfg t st).st (afterBody cfg t st).evs kt hr hpx hk
+          (by simpa using h), ?_⟩
+        constructor
+        · rfl
+        · simp
+        · simp
+        · simp [afterBody, hnn, phasesUpTo, phasesRun, hc, Phase.idx, thrownEvs_enters, phaseStep_enters]
+        · simp [afterBody, hnn, marksUpTo, phasesUpTo, phasesRun, hc, Phase.idx, thrownEvs_marks, phaseStep_marks]
+        · simp [afterBody, hnn, phasesUpTo, phasesRun, hc, Phase.idx, thrownEvs_failures, phaseStep_failures]
+        · simp [afterBody, hnn, (thrownEvs_other cfg t .teardown _).1, (phaseStep_other cfg t _ _).1]
+        · simp [afterBody, hnn, (thrownEvs_other cfg t .teardown _).2, (phaseStep_other cfg t _ _).2]
+
+
+/-- what has been observed when the exception leaves an enclosing level: `pre` ran before it -/
+structure LeftOutcome (cfg : Cfg) (plugins : List Plugin) (pre : List Test) (t : Test) (ph : Phase) (k : ExcKind)
+    (d : Int) (p : Propagated) : Prop where
+  kind : p.kind = k
+  depth : p.depth = d + 1                         -- nobody decremented on the way out of runOneTest
+  current : p.current = some t.name               -- the saved current test was not put back
+  enters : entersOf p.evs = (running cfg pre).flatMap (phasesRun cfg) ++ phasesUpTo cfg t ph
+  marks : marksIn p.evs = (running cfg pre).flatMap (testMarks cfg) ++ marksUpTo cfg t ph
+  failures : failuresOf p.evs = (running cfg pre).flatMap (testFailures cfg plugins) ++ failuresUpTo cfg plugins t ph
+  summaries : summariesOf p.evs = []
+  endedCount : (endedOf p.evs).length = (selected cfg pre).length
+
+theorem runOneTest_propagates (cfg : Cfg) (plugins : List Plugin) (t : Test) (st : TSt) (ph : Phase) (k : ExcKind)
+    (hx : cfg.exceptions = true) (hr : cfg.rethrow = true) (hf : firstThrow cfg t = some (ph, k))
+    (h0 : inBuf st.depth = true) (h1 : inBuf (st.depth + 1) = true) :
+    ∃ p, runOneTest cfg plugins t st = .error (.propagated p) ∧ LeftOutcome cfg plugins [] t ph k st.depth p := by
+  unfold runOneTest setJmp
+  simp only [h0, Bool.not_true, Bool.false_eq_true, if_false, runOneTestInCurrentProcess]
+  obtain ⟨q, hq, oq⟩ := utestRun_propagates cfg t
+    { (runAllPre cfg t plugins { st with hasFailed := false, res := st.res.countRun, depth := st.depth + 1 }).st with
+      current := some t.name } ph k hx hr hf (by simpa using h1)
+  simp only [] at hq
+  rw [hq]
+  refine ⟨_, rfl, ?_⟩
+  constructor
+  · simp [Stop.prepend, oq.kind]
+  · simp [oq.depth]
+  · simp [oq.current]
+  · simp [oq.enters, beforeRun, (runAllPre_spec cfg t plugins _).2.2.2.1, running, selected]
+  · simp [oq.marks, beforeRun, (runAllPre_spec cfg t plugins _).2.2.1, running, selected]
+  · simp [oq.failures, beforeRun, (runAllPre_spec cfg t plugins _).2.1, running, selected, failuresUpTo]
+  · simp [oq.summaries, beforeRun, (runAllPre_spec cfg t plugins _).2.2.2.2.1]
+  · simp [oq.ended, beforeRun, (runAllPre_spec cfg t plugins _).2.2.2.2.2.1, selected]
+
+theorem runEntry_propagates (cfg : Cfg) (plugins : List Plugin) (t : Test) (last : Bool) (s : LSt) (ph : Phase) (k : ExcKind)
+    (hx : cfg.exceptions = true) (hr : cfg.rethrow = true) (hs : shouldRun cfg t = true) (hw : willRun cfg t = true)
+    (hf : firstThrow cfg t = some (ph, k)) (h0 : inBuf s.depth = true) (h1 : inBuf (s.depth + 1) = true) :
+    ∃ p, runEntry cfg plugins t last s = .error (.propagated p) ∧ LeftOutcome cfg plugins [] t ph k s.depth p := by
+  have hgd : (groupStarted cfg s).st.depth = s.depth := by unfold groupStarted; split <;> rfl
+  have hgc : (groupStarted cfg s).st.current = s.current := by unfold groupStarted; split <;> rfl
+  obtain ⟨g1, g2, g3, g4, g5⟩ := groupStarted_inert cfg s
+  obtain ⟨a1, a2, a3, a4, a5⟩ := testStartedToks_inert cfg t
+  obtain ⟨q, hq, oq⟩ := runOneTest_propagates cfg plugins t
+    ⟨(groupStarted cfg s).st.res.countTest, false, (groupStarted cfg s).st.depth, (groupStarted cfg s).st.current⟩ ph k hx hr hf
+    (by rw [hgd]; exact h0) (by rw [hgd]; exact h1)
+  unfold runEntry runFiltered runSelected
+  simp only [hs, hw, if_true]
+  rw [hq]
+  refine ⟨_, rfl, ?_⟩
+  constructor
+  · simp [Stop.prepend, oq.kind]
+  · simp [Stop.prepend, oq.depth, hgd]
+  · simp [Stop.prepend, oq.current]
+  · simpa [Stop.prepend, g3, a3, Ev.enter?] using oq.enters
+  · simpa [Stop.prepend, g2, a2, Ev.mark?] using oq.marks
+  · simpa [Stop.prepend, g1, a1, Ev.failure?] using oq.failures
+  · simpa [Stop.prepend, g4, a4, Ev.summary?] using oq.summaries
+  · simpa [Stop.prepend, g5, a5, Ev.ended?] using oq.endedCount
+
+theorem runTests_propagates (cfg : Cfg) (plugins : List Plugin) (t : Test) (post : List Test) (ph : Phase) (k : ExcKind)
+    (hx : cfg.exceptions = true) (hr : cfg.rethrow = true) (hs : shouldRun cfg t = true) (hw : willRun cfg t = true)
+    (hf : firstThrow cfg t = some (ph, k)) :
+    ∀ (pre : List Test) (s : LSt), (∀ x ∈ pre, QuietTest cfg x) → inBuf s.depth = true → inBuf (s.depth + 1) = true →
+      ∃ p, runTests cfg plugins (pre ++ t :: post) s = .error (.propagated p) ∧ LeftOutcome cfg plugins pre t ph k s.depth p
+  | [], s, _, h0, h1 => by
+    obtain ⟨q, hq, oq⟩ := runEntry_propagates cfg plugins t (endOfGroup t post) s ph k hx hr hs hw hf h0 h1
+    simp only [List.nil_append]
+    unfold runTests
+    rw [hq]
+    exact ⟨_, rfl, oq⟩
+  | x :: pre, s, hq, h0, h1 => by
+    obtain ⟨a, ha, oa⟩ := runEntry_closed cfg plugins x (endOfGroup x (pre ++ t :: post)) s (hq x (by simp)) h0 h1
+    obtain ⟨q, hqq, oq⟩ := runTests_propagates cfg plugins t post ph k hx hr hs hw hf pre a.st
+      (fun y hy => hq y (by simp [hy])) (by rw [oa.depth]; exact h0) (by rw [oa.depth]; exact h1)
+    simp only [List.cons_append]
+    unfold runTests
+    rw [ha]; simp only []; rw [hqq]
+    refine ⟨_, rfl, ?_⟩
+    constructor
+    · simp [Stop.prepend, oq.kind]
+    · simp [Stop.prepend, oq.depth, oa.depth]
+    · simp [Stop.prepend, oq.current]
+    · rw [running_cons]; simp [Stop.prepend, oq.enters, oa.enters]
+    · rw [running_cons]; simp [Stop.prepend, oq.marks, oa.marks]
+    · rw [running_cons]; simp [Stop.prepend, oq.failures, oa.failures]
+    · simp [Stop.prepend, oq.summaries, oa.summaries]
+    · rw [selected_cons]; simp [Stop.prepend, oq.endedCount, oa.ended, Nat.add_comm]
+
+theorem runAllTests_propagates (cfg : Cfg) (plugins : List Plugin) (pre : List Test) (t : Test) (post : List Test)
+    (ph : Phase) (k : ExcKind) (n : Nat) (d : Int)
+    (hx : cfg.exceptions = true) (hr : cfg.rethrow = true) (hq : ∀ x ∈ pre, QuietTest cfg x)
+    (hs : shouldRun cfg t = true) (hw : willRun cfg t = true) (hf : firstThrow cfg t = some (ph, k)) (hn : 0 < n)
+    (h0 : inBuf d = true) (h1 : inBuf (d + 1) = true) :
+    ∃ p, runAllTests cfg plugins (pre ++ t :: post) n d = .error (.propagated p) ∧ LeftOutcome cfg plugins pre t ph k d p := by
+  obtain ⟨m, rfl⟩ : ∃ m, n = m + 1 := ⟨n - 1, by omega⟩
+  obtain ⟨q, hqq, oq⟩ := runTests_propagates cfg plugins t post ph k hx hr hs hw hf pre
+    ⟨{}, d, none, {}, 0 + 1, true⟩ hq h0 h1
+  obtain ⟨t1, t2, t3, t4, t5⟩ := testRunToks_inert 1 (m + 1)
+  unfold runAllTests repeatLoop repetition registryRunAll
+  simp only []
+  rw [hqq]
+  refine ⟨_, rfl, ?_⟩
+  constructor
+  · simp [Stop.prepend, oq.kind]
+  · simp [Stop.prepend, oq.depth]
+  · simp [Stop.prepend, oq.current]
+  · simp [Stop.prepend, oq.enters, t3, Ev.enter?]
+  · simp [Stop.prepend, oq.marks, t2, Ev.mark?]
+  · simp [Stop.prepend, oq.failures, t1, Ev.failure?]
+  · simp [Stop.prepend, oq.summaries, t4, Ev.summary?]
+  · simp [Stop.prepend, oq.endedCount, t5, Ev.ended?]
+
 
 /-! ## reading the console text back -/
 
-theorem repr_ne_of_nondigit (n : Nat) (s : String) (c : Char) (hc : c ∈ s.toList) (hd : c.isDigit = false) :
-    n.repr ≠ s := by
-  intro h
-  have hm : c ∈ Nat.toDigits 10 n := by rw [← Nat.toList_repr, h]; exact hc
-  have := Nat.isDigit_of_mem_toDigits (by decide) (by decide) hm
-  rw [hd] at this; exact absurd this (by decide)
+/-! ### failure records -/
 
-theorem repr_ne_ranNothing (n : Nat) : n.repr ≠ "ran nothing, " :=
-  repr_ne_of_nondigit n _ 'r' (by decide) (by decide)
+theorem scanFrom_skip : ∀ (A : List String) (w B : List String), (∀ a ∈ A, a ≠ failureMarker) →
+    scanFrom w (A ++ B) = scanFrom (A.reverse ++ w) B
+  | [], w, B, _ => by simp
+  | a :: A, w, B, h => by
+    have ha : a ≠ failureMarker := h a (by simp)
+    simp only [List.cons_append, scanFrom, ha, if_false]
+    rw [scanFrom_skip A (a :: w) B (fun x hx => h x (by simp [hx]))]
+    simp
 
-/-- a printed record is read back as the record (the reader cannot tell a message that is a
-    lone ":" from the start of a location, hence the side condition) -/
-theorem parseFailureAt_failureToks (r : FailRec) (rest : List String) (hmsg : r.msg ≠ ":") :
-    parseFailureAt (failureToks r ++ rest) = some r.printed := by
-  unfold failureToks FailRec.printed
-  cases h : r.twoLocations with
-  | true => simp [parseFailureAt, parseLoc, parseTail, locToks]
-  | false =>
-    rcases rest with _ | ⟨a, _ | ⟨b, rest⟩⟩ <;> simp [parseFailureAt, parseLoc, parseTail, locToks, hmsg]
+theorem locToks_noMarker (f : String) (l : Nat) (hf : f ≠ failureMarker) : ∀ a ∈ locToks f l, a ≠ failureMarker := by
+  intro a ha
+  simp only [locToks, List.mem_cons, List.mem_nil_iff, or_false] at ha
+  rcases ha with rfl | rfl | rfl | rfl | rfl | rfl
+  · decide
+  · exact hf
+  · decide
+  · exact repr_ne_marker l
+  · decide
+  · decide
 
-theorem parseSummaryAt_summaryToks (r : Result) (rest : List String) :
-    parseSummaryAt ((summaryToks r ++ rest).tail) =
-      some ⟨!r.isFailure, if r.isFailure && decide (r.failureCount > 0) then some (toString r.failureCount) else none,
-            toString r.testCount, toString r.runCount, toString r.checkCount, toString r.ignoredCount,
-            toString r.filteredOutCount⟩ := by
-  unfold summaryToks summaryHead
-  cases h : r.isFailure with
-  | false => simp [parseSummaryAt, parseCounts]
+theorem marker_of_clean {r : FailRec} (h : r.clean) :
+    r.msg ≠ failureMarker ∧ r.file ≠ failureMarker ∧ r.testFile ≠ failureMarker ∧ r.testName ≠ failureMarker := by
+  obtain ⟨_, h2, h3, h4, h5⟩ := h
+  simp only [markers, List.mem_cons, List.mem_nil_iff, or_false, not_or] at h2 h3 h4 h5
+  exact ⟨h2.1, h3.1, h4.1, h5.1⟩
+
+theorem readRecord_oneLoc (l f name msg : String) (hmsg : msg ≠ ":") (w B : List String) :
+    readRecord (" error:" :: ":" :: l :: ":" :: f :: "\n" :: w) (name :: "\n" :: "\t" :: msg :: "\n\n" :: B)
+      = some ⟨f, l, name, msg, none⟩ := by
+  rcases B with _ | ⟨b1, _ | ⟨b2, B⟩⟩ <;> simp [readRecord, parseLoc, parseTail, hmsg]
+
+/-- **one record**: whatever was printed before (`w`) and is printed after (`B`), the reader finds
+    exactly this record in its strings and nothing else -/
+theorem scanFrom_failureToks (r : FailRec) (hc : r.clean) (w B : List String) :
+    scanFrom w (failureToks r ++ B) = r.printed :: scanFrom ((failureToks r).reverse ++ w) B := by
+  obtain ⟨hm, hf, htf, hn⟩ := marker_of_clean hc
+  have hmsg : r.msg ≠ ":" := hc.1
+  have hr : ∀ n : Nat, n.repr ≠ " Failure in " := repr_ne_marker
+  simp only [failureMarker] at hm hf htf hn
+  unfold failureToks
+  cases h2 : r.twoLocations with
   | true =>
-    by_cases hf : r.failureCount > 0
-    · simp [parseSummaryAt, parseCounts, parseErrorsHead, repr_ne_ranNothing, hf]
-    · simp [parseSummaryAt, parseCounts, parseErrorsHead, hf]
+    simp [locToks, scanFrom, failureMarker, hm, hf, htf, hn, hr, readRecord, parseLoc, parseTail, FailRec.printed, h2]
+  | false =>
+    simp [locToks, scanFrom, failureMarker, hm, hf, htf, hn, hr, readRecord_oneLoc _ _ _ _ hmsg, FailRec.printed, h2]
+
+theorem summaryToks_noMarker (c : Bool) (r : Result) (time : Nat) : ∀ a ∈ summaryToks c r time, a ≠ failureMarker := by
+  have hr : ∀ n : Nat, n.repr ≠ " Failure in " := repr_ne_marker
+  unfold summaryToks summaryHead failureMarker
+  cases c <;> cases r.printsFailure <;> by_cases h0 : r.failureCount > 0 <;> simp [h0, noteText, hr] <;>
+    (try (rintro a (⟨_, rfl⟩ | rfl) <;> simp))
+
+/-- what the theorem asks of the free strings of an event list -/
+def CleanEvs (evs : List Ev) : Prop :=
+  (∀ s ∈ plainToksOf evs, s ∉ markers) ∧ (∀ r ∈ failuresOf evs, r.clean)
+
+theorem scanFrom_toksOf (c : Bool) : ∀ (evs : List Ev) (w : List String), CleanEvs evs →
+    scanFrom w (toksOf c evs) = (failuresOf evs).map FailRec.printed
+  | [], w, _ => by simp [toksOf, scanFrom]
+  | e :: evs, w, h => by
+    have htl : CleanEvs evs := by
+      refine ⟨fun s hs => h.1 s ?_, fun r hr => h.2 r ?_⟩
+      · simp [hs]
+      · simp [hr]
+    have hto : toksOf c (e :: evs) = Ev.toks c e ++ toksOf c evs := by simp [toksOf]
+    rw [hto]
+    cases e with
+    | tok s =>
+      have hs : s ≠ failureMarker := by
+        have := h.1 s (by simp [Ev.tok?])
+        simp only [markers, List.mem_cons, List.mem_nil_iff, or_false, not_or] at this
+        exact this.1
+      simp only [Ev.toks, List.singleton_append, scanFrom, hs, if_false]
+      simpa [Ev.failure?] using scanFrom_toksOf c evs _ htl
+    | failure r =>
+      simp only [Ev.toks]
+      rw [scanFrom_failureToks r (h.2 r (by simp [Ev.failure?])) w (toksOf c evs), scanFrom_toksOf c evs _ htl]
+      simp [Ev.failure?]
+    | summary r time =>
+      simp only [Ev.toks]
+      rw [scanFrom_skip _ w _ (summaryToks_noMarker c r time), scanFrom_toksOf c evs _ htl]
+      simp [Ev.failure?]
+    | enter ph d => simpa [Ev.toks, Ev.failure?] using scanFrom_toksOf c evs w htl
+    | mark ph n d => simpa [Ev.toks, Ev.failure?] using scanFrom_toksOf c evs w htl
+    | plug n po d => simpa [Ev.toks, Ev.failure?] using scanFrom_toksOf c evs w htl
+    | ended d cu f => simpa [Ev.toks, Ev.failure?] using scanFrom_toksOf c evs w htl
+    | clock v => simpa [Ev.toks, Ev.failure?] using scanFrom_toksOf c evs w htl
+    | ret v => simpa [Ev.toks, Ev.failure?] using scanFrom_toksOf c evs w htl
+
+/-! ### summaries -/
+
+theorem parseSummaryAt_none (t : String) (rest : List String) (h1 : t ≠ "OK (") (h2 : t ≠ "Errors (") :
+    parseSummaryAt (t :: rest) = none := by
+  unfold parseSummaryAt
+  split
+  · rename_i h; injection h with h _; exact absurd h h1
+  · rename_i h; injection h with h _; exact absurd h h2
+  · rfl
+
+theorem scanSummaries_skip : ∀ (A B : List String), (∀ a ∈ A, a ≠ "OK (" ∧ a ≠ "Errors (") →
+    scanSummaries (A ++ B) = scanSummaries B
+  | [], B, _ => by simp
+  | a :: A, B, h => by
+    have ha := h a (by simp)
+    simp only [List.cons_append, scanSummaries, parseSummaryAt_none a _ ha.1 ha.2]
+    exact scanSummaries_skip A B (fun x hx => h x (by simp [hx]))
+
+theorem isFailure_iff (r : Result) : r.isFailure = true ↔ ¬ r.ok := by
+  unfold Result.isFailure Gen.Runner.isFailure Result.ok
+  simp only [Bool.or_eq_true, bne_iff_ne, beq_iff_eq, ne_eq]
+  omega
+
+/-- the verdict `printTestsEnded` prints is the one `TestResult::isFailure` gives (both regenerated) -/
+theorem printsFailure_iff (r : Result) : r.printsFailure = true ↔ ¬ r.ok := by
+  unfold Result.printsFailure Gen.Runner.summaryIsFailure
+  exact isFailure_iff r
+
+theorem printsFailure_false_iff (r : Result) : r.printsFailure = false ↔ r.ok := by
+  have h := printsFailure_iff r
+  by_cases hok : r.ok
+  · cases hp : r.printsFailure
+    · simp [hok]
+    · exact absurd hok (h.mp hp)
+  · have := h.mpr hok
+    simp [this, hok]
+
+theorem scan_summary_shape (pre : List String) (h : String) (mid B : List String) (p : PrintedSummary)
+    (hpre : ∀ a ∈ pre, a ≠ "OK (" ∧ a ≠ "Errors (")
+    (hparse : parseSummaryAt (h :: (mid ++ B)) = some p)
+    (hmid : ∀ a ∈ mid, a ≠ "OK (" ∧ a ≠ "Errors (") :
+    scanSummaries ((pre ++ h :: mid) ++ B) = p :: scanSummaries B := by
+  rw [List.append_assoc, scanSummaries_skip pre _ hpre, List.cons_append]
+  simp only [scanSummaries, hparse]
+  rw [scanSummaries_skip mid B hmid]
+
+/-- the twelve strings that carry the counts -/
+def countToks (r : Result) (time : Nat) : List String :=
+  [toString r.testCount, " tests, ", toString r.runCount, " ran, ", toString r.checkCount, " checks, ",
+   toString r.ignoredCount, " ignored, ", toString r.filteredOutCount, " filtered out, ", toString time, " ms)"]
+
+theorem countToks_noHead (r : Result) (time : Nat) : ∀ a ∈ countToks r time, a ≠ "OK (" ∧ a ≠ "Errors (" := by
+  have h1 : ∀ n : Nat, n.repr ≠ "OK (" := repr_ne_ok
+  have h2 : ∀ n : Nat, n.repr ≠ "Errors (" := repr_ne_errors
+  simp [countToks, h1, h2]
+
+theorem parseCounts_countToks (ok : Bool) (f : Option String) (r : Result) (time : Nat) (X : List String) :
+    parseCounts ok f (countToks r time ++ X) =
+      some ⟨ok, f, toString r.testCount, toString r.runCount, toString r.checkCount, toString r.ignoredCount,
+            toString r.filteredOutCount, toString time⟩ := by
+  simp [countToks, parseCounts]
+
+/-- **one summary**: the reader finds exactly this summary in its strings -/
+theorem scanSummaries_summaryToks (c : Bool) (r : Result) (time : Nat) (B : List String) :
+    scanSummaries (summaryToks c r time ++ B) = r.printedSummary time :: scanSummaries B := by
+  have h1 : ∀ n : Nat, n.repr ≠ "OK (" := repr_ne_ok
+  have h2 : ∀ n : Nat, n.repr ≠ "Errors (" := repr_ne_errors
+  have h3 : ∀ n : Nat, n.repr ≠ "ran nothing, " := repr_ne_ranNothing
+  have hcn := countToks_noHead r time
+  cases hp : r.printsFailure with
+  | false =>
+    have hok : r.ok := (printsFailure_false_iff r).mp hp
+    have h0 : r.failureCount = 0 := hok.1
+    have hshape : summaryToks c r time =
+        ("\n" :: (if c then ["\x1b[32;1m"] else [])) ++ "OK (" :: (countToks r time ++ ((if c then ["\x1b[m"] else []) ++ ["\n\n"])) := by
+      cases c <;> simp [summaryToks, summaryHead, hp, countToks]
+    rw [hshape]
+    apply scan_summary_shape
+    · cases c <;> simp
+    · simp only [parseSummaryAt, List.append_assoc, parseCounts_countToks]
+      simp [Result.printedSummary, hok, h0]
+    · intro a ha
+      simp only [List.mem_append] at ha
+      rcases ha with ha | ha
+      · exact hcn a ha
+      · cases c <;> simp at ha <;> rcases ha with rfl | rfl <;> simp
+  | true =>
+    have hnok : ¬ r.ok := (printsFailure_iff r).mp hp
+    by_cases h0 : r.failureCount > 0
+    · have hne : r.failureCount ≠ 0 := Nat.pos_iff_ne_zero.mp h0
+      have hshape : summaryToks c r time =
+          ("\n" :: (if c then ["\x1b[31;1m"] else [])) ++ "Errors (" ::
+            (toString r.failureCount :: " failures, " :: (countToks r time ++ ((if c then ["\x1b[m"] else []) ++ ["\n\n"]))) := by
+        cases c <;> simp [summaryToks, summaryHead, hp, h0, hne, countToks]
+      rw [hshape]
+      apply scan_summary_shape
+      · cases c <;> simp
+      · simp only [parseSummaryAt, parseErrorsHead, List.cons_append, List.append_assoc, parseCounts_countToks]
+        simp [Result.printedSummary, hnok, hne, h3]
+      · intro a ha
+        simp only [List.mem_cons, List.mem_append] at ha
+        rcases ha with rfl | rfl | ha | ha
+        · exact ⟨h1 _, h2 _⟩
+        · simp
+        · exact hcn a ha
+        · cases c <;> simp at ha <;> rcases ha with rfl | rfl <;> simp
+    · have he : r.failureCount = 0 := by omega
+      have hshape : summaryToks c r time =
+          ("\n" :: (if c then ["\x1b[31;1m"] else [])) ++ "Errors (" ::
+            ("ran nothing, " :: (countToks r time ++ ((if c then ["\x1b[m"] else []) ++ [noteText, "\n\n"]))) := by
+        cases c <;> simp [summaryToks, summaryHead, hp, he, countToks]
+      rw [hshape]
+      apply scan_summary_shape
+      · cases c <;> simp
+      · simp only [parseSummaryAt, parseErrorsHead, List.cons_append, List.append_assoc, parseCounts_countToks]
+        simp [Result.printedSummary, hnok, he]
+      · intro a ha
+        simp only [List.mem_cons, List.mem_append] at ha
+        rcases ha with rfl | ha | ha
+        · simp
+        · exact hcn a ha
+        · cases c <;> simp [noteText] at ha <;> rcases ha with rfl | rfl | rfl <;> simp
+
+theorem failureToks_noHead (r : FailRec) (hc : r.clean) : ∀ a ∈ failureToks r, a ≠ "OK (" ∧ a ≠ "Errors (" := by
+  obtain ⟨_, h2, h3, h4, h5⟩ := hc
+  simp only [markers, List.mem_cons, List.mem_nil_iff, or_false, not_or] at h2 h3 h4 h5
+  have h1 : ∀ n : Nat, n.repr ≠ "OK (" := repr_ne_ok
+  have h1' : ∀ n : Nat, n.repr ≠ "Errors (" := repr_ne_errors
+  unfold failureToks
+  cases r.twoLocations <;> simp [locToks, h1, h1', h2.2, h3.2, h4.2, h5.2]
+
+theorem scanSummaries_toksOf (c : Bool) : ∀ (evs : List Ev), CleanEvs evs →
+    scanSummaries (toksOf c evs) = (summariesOf evs).map (fun x => x.1.printedSummary x.2)
+  | [], _ => by simp [toksOf, scanSummaries]
+  | e :: evs, h => by
+    have htl : CleanEvs evs := by
+      refine ⟨fun s hs => h.1 s ?_, fun r hr => h.2 r ?_⟩
+      · simp [hs]
+      · simp [hr]
+    have ih := scanSummaries_toksOf c evs htl
+    have hto : toksOf c (e :: evs) = Ev.toks c e ++ toksOf c evs := by simp [toksOf]
+    rw [hto]
+    cases e with
+    | tok s =>
+      have hs := h.1 s (by simp [Ev.tok?])
+      simp only [markers, List.mem_cons, List.mem_nil_iff, or_false, not_or] at hs
+      simp only [Ev.toks, List.singleton_append, scanSummaries, parseSummaryAt_none s _ hs.2.1 hs.2.2]
+      simpa [Ev.summary?] using ih
+    | failure r =>
+      simp only [Ev.toks]
+      rw [scanSummaries_skip _ _ (failureToks_noHead r (h.2 r (by simp [Ev.failure?]))), ih]
+      simp [Ev.summary?]
+    | summary r time =>
+      simp only [Ev.toks]
+      rw [scanSummaries_summaryToks, ih]
+      simp [Ev.summary?]
+    | enter ph d => simpa [Ev.toks, Ev.summary?] using ih
+    | mark ph n d => simpa [Ev.toks, Ev.summary?] using ih
+    | plug n po d => simpa [Ev.toks, Ev.summary?] using ih
+    | ended d cu f => simpa [Ev.toks, Ev.summary?] using ih
+    | clock v => simpa [Ev.toks, Ev.summary?] using ih
+    | ret v => simpa [Ev.toks, Ev.summary?] using ih
 
 end Runner
